@@ -1,4 +1,9 @@
 
+(** val xorb : bool -> bool -> bool **)
+
+let xorb b1 b2 =
+  if b1 then if b2 then false else true else b2
+
 (** val negb : bool -> bool **)
 
 let negb = function
@@ -8,6 +13,12 @@ let negb = function
 type nat =
 | O
 | S of nat
+
+(** val option_map : ('a1 -> 'a2) -> 'a1 option -> 'a2 option **)
+
+let option_map f = function
+| Some a -> Some (f a)
+| None -> None
 
 (** val fst : ('a1 * 'a2) -> 'a1 **)
 
@@ -37,12 +48,35 @@ type comparison =
 | Lt
 | Gt
 
-(** val add : nat -> nat -> nat **)
+module Coq__1 = struct
+ (** val add : nat -> nat -> nat **)
+ let rec add n0 m =
+   match n0 with
+   | O -> m
+   | S p -> S (add p m)
+end
+include Coq__1
 
-let rec add n0 m =
+(** val mul : nat -> nat -> nat **)
+
+let rec mul n0 m =
   match n0 with
-  | O -> m
-  | S p -> S (add p m)
+  | O -> O
+  | S p -> add m (mul p m)
+
+(** val sub : nat -> nat -> nat **)
+
+let rec sub n0 m =
+  match n0 with
+  | O -> n0
+  | S k -> (match m with
+            | O -> n0
+            | S l -> sub k l)
+
+(** val eqb : bool -> bool -> bool **)
+
+let eqb b1 b2 =
+  if b1 then b2 else if b2 then false else true
 
 type positive =
 | XI of positive
@@ -53,8 +87,24 @@ type n =
 | N0
 | Npos of positive
 
+type z =
+| Z0
+| Zpos of positive
+| Zneg of positive
+
 module Nat =
  struct
+  (** val eqb : nat -> nat -> bool **)
+
+  let rec eqb n0 m =
+    match n0 with
+    | O -> (match m with
+            | O -> true
+            | S _ -> false)
+    | S n' -> (match m with
+               | O -> false
+               | S m' -> eqb n' m')
+
   (** val leb : nat -> nat -> bool **)
 
   let rec leb n0 m =
@@ -68,6 +118,15 @@ module Nat =
 
   let ltb n0 m =
     leb (S n0) m
+
+  (** val max : nat -> nat -> nat **)
+
+  let rec max n0 m =
+    match n0 with
+    | O -> m
+    | S n' -> (match m with
+               | O -> n0
+               | S m' -> S (max n' m'))
  end
 
 module Pos =
@@ -86,6 +145,45 @@ module Coq_Pos =
   | XI p -> XO (succ p)
   | XO p -> XI p
   | XH -> XO XH
+
+  (** val add : positive -> positive -> positive **)
+
+  let rec add x y =
+    match x with
+    | XI p ->
+      (match y with
+       | XI q -> XO (add_carry p q)
+       | XO q -> XI (add p q)
+       | XH -> XO (succ p))
+    | XO p ->
+      (match y with
+       | XI q -> XI (add p q)
+       | XO q -> XO (add p q)
+       | XH -> XI p)
+    | XH -> (match y with
+             | XI q -> XO (succ q)
+             | XO q -> XI q
+             | XH -> XO XH)
+
+  (** val add_carry : positive -> positive -> positive **)
+
+  and add_carry x y =
+    match x with
+    | XI p ->
+      (match y with
+       | XI q -> XI (add_carry p q)
+       | XO q -> XO (add_carry p q)
+       | XH -> XI (succ p))
+    | XO p ->
+      (match y with
+       | XI q -> XO (add_carry p q)
+       | XO q -> XI (add p q)
+       | XH -> XO (succ p))
+    | XH ->
+      (match y with
+       | XI q -> XI (succ q)
+       | XO q -> XO (succ q)
+       | XH -> XI XH)
 
   (** val pred_double : positive -> positive **)
 
@@ -153,6 +251,14 @@ module Coq_Pos =
        | XH -> double_pred_mask p)
     | XH -> IsNeg
 
+  (** val mul : positive -> positive -> positive **)
+
+  let rec mul x y =
+    match x with
+    | XI p -> add y (XO (mul p y))
+    | XO p -> XO (mul p y)
+    | XH -> y
+
   (** val size : positive -> positive **)
 
   let rec size = function
@@ -208,7 +314,7 @@ module Coq_Pos =
   (** val to_nat : positive -> nat **)
 
   let to_nat x =
-    iter_op add x (S O)
+    iter_op Coq__1.add x (S O)
 
   (** val of_succ_nat : nat -> positive **)
 
@@ -231,6 +337,15 @@ module N =
   | N0 -> N0
   | Npos p -> Npos (XO p)
 
+  (** val add : n -> n -> n **)
+
+  let add n0 m =
+    match n0 with
+    | N0 -> m
+    | Npos p -> (match m with
+                 | N0 -> n0
+                 | Npos q -> Npos (Coq_Pos.add p q))
+
   (** val sub : n -> n -> n **)
 
   let sub n0 m =
@@ -243,6 +358,15 @@ module N =
          (match Coq_Pos.sub_mask n' m' with
           | Coq_Pos.IsPos p -> Npos p
           | _ -> N0))
+
+  (** val mul : n -> n -> n **)
+
+  let mul n0 m =
+    match n0 with
+    | N0 -> N0
+    | Npos p -> (match m with
+                 | N0 -> N0
+                 | Npos q -> Npos (Coq_Pos.mul p q))
 
   (** val compare : n -> n -> comparison **)
 
@@ -366,17 +490,80 @@ let ascii_of_N = function
 let ascii_of_nat a =
   ascii_of_N (N.of_nat a)
 
+(** val n_of_digits : bool list -> n **)
+
+let rec n_of_digits = function
+| [] -> N0
+| b :: l' ->
+  N.add (if b then Npos XH else N0) (N.mul (Npos (XO XH)) (n_of_digits l'))
+
+(** val n_of_ascii : char -> n **)
+
+let n_of_ascii a =
+  (* If this appears, you're using Ascii internals. Please don't *)
+ (fun f c ->
+  let n = Char.code c in
+  let h i = (n land (1 lsl i)) <> 0 in
+  f (h 0) (h 1) (h 2) (h 3) (h 4) (h 5) (h 6) (h 7))
+    (fun a0 a1 a2 a3 a4 a5 a6 a7 ->
+    n_of_digits
+      (a0 :: (a1 :: (a2 :: (a3 :: (a4 :: (a5 :: (a6 :: (a7 :: [])))))))))
+    a
+
+(** val nat_of_ascii : char -> nat **)
+
+let nat_of_ascii a =
+  N.to_nat (n_of_ascii a)
+
 (** val map : ('a1 -> 'a2) -> 'a1 list -> 'a2 list **)
 
 let rec map f = function
 | [] -> []
 | a :: t -> (f a) :: (map f t)
 
+(** val fold_right : ('a2 -> 'a1 -> 'a1) -> 'a1 -> 'a2 list -> 'a1 **)
+
+let rec fold_right f a0 = function
+| [] -> a0
+| b :: t -> f b (fold_right f a0 t)
+
 (** val forallb : ('a1 -> bool) -> 'a1 list -> bool **)
 
 let rec forallb f = function
 | [] -> true
 | a :: l0 -> (&&) (f a) (forallb f l0)
+
+(** val combine : 'a1 list -> 'a2 list -> ('a1 * 'a2) list **)
+
+let rec combine l l' =
+  match l with
+  | [] -> []
+  | x :: tl ->
+    (match l' with
+     | [] -> []
+     | y :: tl' -> (x, y) :: (combine tl tl'))
+
+module Z =
+ struct
+  (** val opp : z -> z **)
+
+  let opp = function
+  | Z0 -> Z0
+  | Zpos x0 -> Zneg x0
+  | Zneg x0 -> Zpos x0
+
+  (** val to_nat : z -> nat **)
+
+  let to_nat = function
+  | Zpos p -> Coq_Pos.to_nat p
+  | _ -> O
+
+  (** val of_N : n -> z **)
+
+  let of_N = function
+  | N0 -> Z0
+  | Npos p -> Zpos p
+ end
 
 (** val eqb0 : char list -> char list -> bool **)
 
@@ -396,6 +583,22 @@ let rec append s1 s2 =
   match s1 with
   | [] -> s2
   | c::s1' -> c::(append s1' s2)
+
+(** val length0 : char list -> nat **)
+
+let rec length0 = function
+| [] -> O
+| _::s' -> S (length0 s')
+
+(** val prefix : char list -> char list -> bool **)
+
+let rec prefix s1 s2 =
+  match s1 with
+  | [] -> true
+  | a::s1' ->
+    (match s2 with
+     | [] -> false
+     | b::s2' -> if (=) a b then prefix s1' s2' else false)
 
 type err =
 | ErrValue
@@ -455,6 +658,12 @@ let rec list_str_eqb a b =
      | [] -> false
      | y :: b' -> (&&) (eqb0 x y) (list_str_eqb a' b'))
 
+(** val concat_str : char list list -> char list **)
+
+let rec concat_str = function
+| [] -> []
+| x :: r -> append x (concat_str r)
+
 (** val digit_char : nat -> char **)
 
 let digit_char n0 =
@@ -485,9 +694,80 @@ let dec_N n0 =
 let dec_nat n0 =
   dec_N (N.of_nat n0)
 
+(** val is_digit : char -> bool **)
+
+let is_digit c =
+  let n0 = nat_of_ascii c in
+  (&&)
+    (Nat.leb (S (S (S (S (S (S (S (S (S (S (S (S (S (S (S (S (S (S (S (S (S
+      (S (S (S (S (S (S (S (S (S (S (S (S (S (S (S (S (S (S (S (S (S (S (S (S
+      (S (S (S O)))))))))))))))))))))))))))))))))))))))))))))))) n0)
+    (Nat.leb n0 (S (S (S (S (S (S (S (S (S (S (S (S (S (S (S (S (S (S (S (S
+      (S (S (S (S (S (S (S (S (S (S (S (S (S (S (S (S (S (S (S (S (S (S (S (S
+      (S (S (S (S (S (S (S (S (S (S (S (S (S
+      O))))))))))))))))))))))))))))))))))))))))))))))))))))))))))
+
+(** val parse_N_acc : char list -> n -> n option **)
+
+let rec parse_N_acc s acc =
+  match s with
+  | [] -> Some acc
+  | c::r ->
+    if is_digit c
+    then parse_N_acc r
+           (N.add (N.mul acc (Npos (XO (XI (XO XH)))))
+             (N.of_nat
+               (sub (nat_of_ascii c) (S (S (S (S (S (S (S (S (S (S (S (S (S
+                 (S (S (S (S (S (S (S (S (S (S (S (S (S (S (S (S (S (S (S (S
+                 (S (S (S (S (S (S (S (S (S (S (S (S (S (S (S
+                 O)))))))))))))))))))))))))))))))))))))))))))))))))))
+    else None
+
+(** val parse_N : char list -> n option **)
+
+let parse_N s = match s with
+| [] -> None
+| _::_ -> parse_N_acc s N0
+
+(** val parse_Z : char list -> z option **)
+
+let parse_Z s = match s with
+| [] -> option_map Z.of_N (parse_N s)
+| a::r ->
+  (* If this appears, you're using Ascii internals. Please don't *)
+ (fun f c ->
+  let n = Char.code c in
+  let h i = (n land (1 lsl i)) <> 0 in
+  f (h 0) (h 1) (h 2) (h 3) (h 4) (h 5) (h 6) (h 7))
+    (fun b b0 b1 b2 b3 b4 b5 b6 ->
+    if b
+    then if b0
+         then option_map Z.of_N (parse_N s)
+         else if b1
+              then if b2
+                   then if b3
+                        then option_map Z.of_N (parse_N s)
+                        else if b4
+                             then if b5
+                                  then option_map Z.of_N (parse_N s)
+                                  else if b6
+                                       then option_map Z.of_N (parse_N s)
+                                       else option_map (fun n0 ->
+                                              Z.opp (Z.of_N n0)) (parse_N r)
+                             else option_map Z.of_N (parse_N s)
+                   else option_map Z.of_N (parse_N s)
+              else option_map Z.of_N (parse_N s)
+    else option_map Z.of_N (parse_N s))
+    a
+
 type sexp =
 | SAtom of char list
 | SList of sexp list
+
+(** val s_str : char list -> sexp **)
+
+let s_str s =
+  SAtom s
 
 (** val s_strs : char list list -> sexp **)
 
@@ -547,6 +827,307 @@ let d_strs = function
 | SAtom _ -> None
 | SList l -> d_list d_str l
 
+(** val d_Z : sexp -> z option **)
+
+let d_Z = function
+| SAtom a -> parse_Z a
+| SList _ -> None
+
+(** val d_nat : sexp -> nat option **)
+
+let d_nat s =
+  option_map Z.to_nat (d_Z s)
+
+(** val d_bool : sexp -> bool option **)
+
+let d_bool = function
+| SAtom s0 ->
+  (match s0 with
+   | [] -> None
+   | a::s1 ->
+     (* If this appears, you're using Ascii internals. Please don't *)
+ (fun f c ->
+  let n = Char.code c in
+  let h i = (n land (1 lsl i)) <> 0 in
+  f (h 0) (h 1) (h 2) (h 3) (h 4) (h 5) (h 6) (h 7))
+       (fun b b0 b1 b2 b3 b4 b5 b6 ->
+       if b
+       then None
+       else if b0
+            then if b1
+                 then if b2
+                      then None
+                      else if b3
+                           then None
+                           else if b4
+                                then if b5
+                                     then if b6
+                                          then None
+                                          else (match s1 with
+                                                | [] -> None
+                                                | a0::s2 ->
+                                                  (* If this appears, you're using Ascii internals. Please don't *)
+ (fun f c ->
+  let n = Char.code c in
+  let h i = (n land (1 lsl i)) <> 0 in
+  f (h 0) (h 1) (h 2) (h 3) (h 4) (h 5) (h 6) (h 7))
+                                                    (fun b7 b8 b9 b10 b11 b12 b13 b14 ->
+                                                    if b7
+                                                    then if b8
+                                                         then None
+                                                         else if b9
+                                                              then None
+                                                              else if b10
+                                                                   then None
+                                                                   else 
+                                                                    if b11
+                                                                    then None
+                                                                    else 
+                                                                    if b12
+                                                                    then 
+                                                                    if b13
+                                                                    then 
+                                                                    if b14
+                                                                    then None
+                                                                    else 
+                                                                    (match s2 with
+                                                                    | [] ->
+                                                                    None
+                                                                    | a1::s3 ->
+                                                                    (* If this appears, you're using Ascii internals. Please don't *)
+ (fun f c ->
+  let n = Char.code c in
+  let h i = (n land (1 lsl i)) <> 0 in
+  f (h 0) (h 1) (h 2) (h 3) (h 4) (h 5) (h 6) (h 7))
+                                                                    (fun b15 b16 b17 b18 b19 b20 b21 b22 ->
+                                                                    if b15
+                                                                    then None
+                                                                    else 
+                                                                    if b16
+                                                                    then None
+                                                                    else 
+                                                                    if b17
+                                                                    then 
+                                                                    if b18
+                                                                    then 
+                                                                    if b19
+                                                                    then None
+                                                                    else 
+                                                                    if b20
+                                                                    then 
+                                                                    if b21
+                                                                    then 
+                                                                    if b22
+                                                                    then None
+                                                                    else 
+                                                                    (match s3 with
+                                                                    | [] ->
+                                                                    None
+                                                                    | a2::s4 ->
+                                                                    (* If this appears, you're using Ascii internals. Please don't *)
+ (fun f c ->
+  let n = Char.code c in
+  let h i = (n land (1 lsl i)) <> 0 in
+  f (h 0) (h 1) (h 2) (h 3) (h 4) (h 5) (h 6) (h 7))
+                                                                    (fun b23 b24 b25 b26 b27 b28 b29 b30 ->
+                                                                    if b23
+                                                                    then 
+                                                                    if b24
+                                                                    then 
+                                                                    if b25
+                                                                    then None
+                                                                    else 
+                                                                    if b26
+                                                                    then None
+                                                                    else 
+                                                                    if b27
+                                                                    then 
+                                                                    if b28
+                                                                    then 
+                                                                    if b29
+                                                                    then 
+                                                                    if b30
+                                                                    then None
+                                                                    else 
+                                                                    (match s4 with
+                                                                    | [] ->
+                                                                    None
+                                                                    | a3::s5 ->
+                                                                    (* If this appears, you're using Ascii internals. Please don't *)
+ (fun f c ->
+  let n = Char.code c in
+  let h i = (n land (1 lsl i)) <> 0 in
+  f (h 0) (h 1) (h 2) (h 3) (h 4) (h 5) (h 6) (h 7))
+                                                                    (fun b31 b32 b33 b34 b35 b36 b37 b38 ->
+                                                                    if b31
+                                                                    then 
+                                                                    if b32
+                                                                    then None
+                                                                    else 
+                                                                    if b33
+                                                                    then 
+                                                                    if b34
+                                                                    then None
+                                                                    else 
+                                                                    if b35
+                                                                    then None
+                                                                    else 
+                                                                    if b36
+                                                                    then 
+                                                                    if b37
+                                                                    then 
+                                                                    if b38
+                                                                    then None
+                                                                    else 
+                                                                    (match s5 with
+                                                                    | [] ->
+                                                                    Some false
+                                                                    | _::_ ->
+                                                                    None)
+                                                                    else None
+                                                                    else None
+                                                                    else None
+                                                                    else None)
+                                                                    a3)
+                                                                    else None
+                                                                    else None
+                                                                    else None
+                                                                    else None
+                                                                    else None)
+                                                                    a2)
+                                                                    else None
+                                                                    else None
+                                                                    else None
+                                                                    else None)
+                                                                    a1)
+                                                                    else None
+                                                                    else None
+                                                    else None)
+                                                    a0)
+                                     else None
+                                else None
+                 else None
+            else if b1
+                 then if b2
+                      then None
+                      else if b3
+                           then if b4
+                                then if b5
+                                     then if b6
+                                          then None
+                                          else (match s1 with
+                                                | [] -> None
+                                                | a0::s2 ->
+                                                  (* If this appears, you're using Ascii internals. Please don't *)
+ (fun f c ->
+  let n = Char.code c in
+  let h i = (n land (1 lsl i)) <> 0 in
+  f (h 0) (h 1) (h 2) (h 3) (h 4) (h 5) (h 6) (h 7))
+                                                    (fun b7 b8 b9 b10 b11 b12 b13 b14 ->
+                                                    if b7
+                                                    then None
+                                                    else if b8
+                                                         then if b9
+                                                              then None
+                                                              else if b10
+                                                                   then None
+                                                                   else 
+                                                                    if b11
+                                                                    then 
+                                                                    if b12
+                                                                    then 
+                                                                    if b13
+                                                                    then 
+                                                                    if b14
+                                                                    then None
+                                                                    else 
+                                                                    (match s2 with
+                                                                    | [] ->
+                                                                    None
+                                                                    | a1::s3 ->
+                                                                    (* If this appears, you're using Ascii internals. Please don't *)
+ (fun f c ->
+  let n = Char.code c in
+  let h i = (n land (1 lsl i)) <> 0 in
+  f (h 0) (h 1) (h 2) (h 3) (h 4) (h 5) (h 6) (h 7))
+                                                                    (fun b15 b16 b17 b18 b19 b20 b21 b22 ->
+                                                                    if b15
+                                                                    then 
+                                                                    if b16
+                                                                    then None
+                                                                    else 
+                                                                    if b17
+                                                                    then 
+                                                                    if b18
+                                                                    then None
+                                                                    else 
+                                                                    if b19
+                                                                    then 
+                                                                    if b20
+                                                                    then 
+                                                                    if b21
+                                                                    then 
+                                                                    if b22
+                                                                    then None
+                                                                    else 
+                                                                    (match s3 with
+                                                                    | [] ->
+                                                                    None
+                                                                    | a2::s4 ->
+                                                                    (* If this appears, you're using Ascii internals. Please don't *)
+ (fun f c ->
+  let n = Char.code c in
+  let h i = (n land (1 lsl i)) <> 0 in
+  f (h 0) (h 1) (h 2) (h 3) (h 4) (h 5) (h 6) (h 7))
+                                                                    (fun b23 b24 b25 b26 b27 b28 b29 b30 ->
+                                                                    if b23
+                                                                    then 
+                                                                    if b24
+                                                                    then None
+                                                                    else 
+                                                                    if b25
+                                                                    then 
+                                                                    if b26
+                                                                    then None
+                                                                    else 
+                                                                    if b27
+                                                                    then None
+                                                                    else 
+                                                                    if b28
+                                                                    then 
+                                                                    if b29
+                                                                    then 
+                                                                    if b30
+                                                                    then None
+                                                                    else 
+                                                                    (match s4 with
+                                                                    | [] ->
+                                                                    Some true
+                                                                    | _::_ ->
+                                                                    None)
+                                                                    else None
+                                                                    else None
+                                                                    else None
+                                                                    else None)
+                                                                    a2)
+                                                                    else None
+                                                                    else None
+                                                                    else None
+                                                                    else None
+                                                                    else None)
+                                                                    a1)
+                                                                    else None
+                                                                    else None
+                                                                    else None
+                                                         else None)
+                                                    a0)
+                                     else None
+                                else None
+                           else None
+                 else None)
+       a)
+| SList _ -> None
+
 (** val bad_input : sexp **)
 
 let bad_input =
@@ -590,8 +1171,8 @@ let step1 t b =
 
 (** val phase1 : jblock list -> table -> table result **)
 
-let rec phase1 bs t =
-  match bs with
+let rec phase1 bs0 t =
+  match bs0 with
   | [] -> OK t
   | b :: r -> (match step1 t b with
                | OK t' -> phase1 r t'
@@ -613,15 +1194,15 @@ let deps_present t =
     table -> char list list -> char list list -> bool -> (char list
     list * char list list) * bool **)
 
-let rec one_pass rest seen out emitted =
+let rec one_pass rest seen out emitted0 =
   match rest with
-  | [] -> ((seen, out), emitted)
+  | [] -> ((seen, out), emitted0)
   | e :: r ->
     let (n0, p) = e in
     let (scr, ds) = p in
     if (&&) (negb (mem_str n0 seen)) (forallb (fun d -> mem_str d seen) ds)
     then one_pass r (app seen (n0 :: [])) (app out scr) true
-    else one_pass r seen out emitted
+    else one_pass r seen out emitted0
 
 (** val emit_loop :
     nat -> table -> char list list -> char list list -> char list list result **)
@@ -638,8 +1219,8 @@ let rec emit_loop fuel t seen out =
 
 (** val gen : jblock list -> char list list result **)
 
-let gen bs =
-  match phase1 bs [] with
+let gen bs0 =
+  match phase1 bs0 [] with
   | OK t ->
     if deps_present t
     then emit_loop (S (length t)) t [] []
@@ -680,7 +1261,7 @@ let run_gen = function
 | SAtom _ -> bad_input
 | SList l ->
   (match d_list d_jblock l with
-   | Some bs -> s_result s_strs (gen bs)
+   | Some bs0 -> s_result s_strs (gen bs0)
    | None -> bad_input)
 
 type mrow = { m_py : char list; m_cpp : char list; m_inc : char list list;
@@ -894,27 +1475,2596 @@ let audit e doc =
 (** val math_rows : mrow list **)
 
 let math_rows =
-  []
+  { m_py = ('s'::('i'::('n'::[]))); m_cpp =
+    ('s'::('t'::('d'::(':'::(':'::('s'::('i'::('n'::[])))))))); m_inc =
+    (('c'::('m'::('a'::('t'::('h'::[]))))) :: []); m_ret =
+    ('d'::('o'::('u'::('b'::('l'::('e'::[])))))) } :: ({ m_py =
+    ('c'::('o'::('s'::[]))); m_cpp =
+    ('s'::('t'::('d'::(':'::(':'::('c'::('o'::('s'::[])))))))); m_inc =
+    (('c'::('m'::('a'::('t'::('h'::[]))))) :: []); m_ret =
+    ('d'::('o'::('u'::('b'::('l'::('e'::[])))))) } :: ({ m_py =
+    ('t'::('a'::('n'::[]))); m_cpp =
+    ('s'::('t'::('d'::(':'::(':'::('t'::('a'::('n'::[])))))))); m_inc =
+    (('c'::('m'::('a'::('t'::('h'::[]))))) :: []); m_ret =
+    ('d'::('o'::('u'::('b'::('l'::('e'::[])))))) } :: ({ m_py =
+    ('a'::('c'::('o'::('s'::[])))); m_cpp =
+    ('s'::('t'::('d'::(':'::(':'::('a'::('c'::('o'::('s'::[])))))))));
+    m_inc = (('c'::('m'::('a'::('t'::('h'::[]))))) :: []); m_ret =
+    ('d'::('o'::('u'::('b'::('l'::('e'::[])))))) } :: ({ m_py =
+    ('a'::('s'::('i'::('n'::[])))); m_cpp =
+    ('s'::('t'::('d'::(':'::(':'::('a'::('s'::('i'::('n'::[])))))))));
+    m_inc = (('c'::('m'::('a'::('t'::('h'::[]))))) :: []); m_ret =
+    ('d'::('o'::('u'::('b'::('l'::('e'::[])))))) } :: ({ m_py =
+    ('a'::('t'::('a'::('n'::[])))); m_cpp =
+    ('s'::('t'::('d'::(':'::(':'::('a'::('t'::('a'::('n'::[])))))))));
+    m_inc = (('c'::('m'::('a'::('t'::('h'::[]))))) :: []); m_ret =
+    ('d'::('o'::('u'::('b'::('l'::('e'::[])))))) } :: ({ m_py =
+    ('a'::('t'::('a'::('n'::('2'::[]))))); m_cpp =
+    ('s'::('t'::('d'::(':'::(':'::('a'::('t'::('a'::('n'::('2'::[]))))))))));
+    m_inc = (('c'::('m'::('a'::('t'::('h'::[]))))) :: []); m_ret =
+    ('d'::('o'::('u'::('b'::('l'::('e'::[])))))) } :: ({ m_py =
+    ('s'::('i'::('n'::('h'::[])))); m_cpp =
+    ('s'::('t'::('d'::(':'::(':'::('s'::('i'::('n'::('h'::[])))))))));
+    m_inc = (('c'::('m'::('a'::('t'::('h'::[]))))) :: []); m_ret =
+    ('d'::('o'::('u'::('b'::('l'::('e'::[])))))) } :: ({ m_py =
+    ('c'::('o'::('s'::('h'::[])))); m_cpp =
+    ('s'::('t'::('d'::(':'::(':'::('c'::('o'::('s'::('h'::[])))))))));
+    m_inc = (('c'::('m'::('a'::('t'::('h'::[]))))) :: []); m_ret =
+    ('d'::('o'::('u'::('b'::('l'::('e'::[])))))) } :: ({ m_py =
+    ('t'::('a'::('n'::('h'::[])))); m_cpp =
+    ('s'::('t'::('d'::(':'::(':'::('t'::('a'::('n'::('h'::[])))))))));
+    m_inc = (('c'::('m'::('a'::('t'::('h'::[]))))) :: []); m_ret =
+    ('d'::('o'::('u'::('b'::('l'::('e'::[])))))) } :: ({ m_py =
+    ('a'::('s'::('i'::('n'::('h'::[]))))); m_cpp =
+    ('s'::('t'::('d'::(':'::(':'::('a'::('s'::('i'::('n'::('h'::[]))))))))));
+    m_inc = (('c'::('m'::('a'::('t'::('h'::[]))))) :: []); m_ret =
+    ('d'::('o'::('u'::('b'::('l'::('e'::[])))))) } :: ({ m_py =
+    ('a'::('c'::('o'::('s'::('h'::[]))))); m_cpp =
+    ('s'::('t'::('d'::(':'::(':'::('a'::('c'::('o'::('s'::('h'::[]))))))))));
+    m_inc = (('c'::('m'::('a'::('t'::('h'::[]))))) :: []); m_ret =
+    ('d'::('o'::('u'::('b'::('l'::('e'::[])))))) } :: ({ m_py =
+    ('a'::('t'::('a'::('n'::('h'::[]))))); m_cpp =
+    ('s'::('t'::('d'::(':'::(':'::('a'::('t'::('a'::('n'::('h'::[]))))))))));
+    m_inc = (('c'::('m'::('a'::('t'::('h'::[]))))) :: []); m_ret =
+    ('d'::('o'::('u'::('b'::('l'::('e'::[])))))) } :: ({ m_py =
+    ('e'::('x'::('p'::[]))); m_cpp =
+    ('s'::('t'::('d'::(':'::(':'::('e'::('x'::('p'::[])))))))); m_inc =
+    (('c'::('m'::('a'::('t'::('h'::[]))))) :: []); m_ret =
+    ('d'::('o'::('u'::('b'::('l'::('e'::[])))))) } :: ({ m_py =
+    ('l'::('d'::('e'::('x'::('p'::[]))))); m_cpp =
+    ('s'::('t'::('d'::(':'::(':'::('l'::('d'::('e'::('x'::('p'::[]))))))))));
+    m_inc = (('c'::('m'::('a'::('t'::('h'::[]))))) :: []); m_ret =
+    ('d'::('o'::('u'::('b'::('l'::('e'::[])))))) } :: ({ m_py =
+    ('l'::('o'::('g'::[]))); m_cpp =
+    ('s'::('t'::('d'::(':'::(':'::('l'::('o'::('g'::[])))))))); m_inc =
+    (('c'::('m'::('a'::('t'::('h'::[]))))) :: []); m_ret =
+    ('d'::('o'::('u'::('b'::('l'::('e'::[])))))) } :: ({ m_py =
+    ('l'::('n'::[])); m_cpp =
+    ('s'::('t'::('d'::(':'::(':'::('l'::('o'::('g'::[])))))))); m_inc =
+    (('c'::('m'::('a'::('t'::('h'::[]))))) :: []); m_ret =
+    ('d'::('o'::('u'::('b'::('l'::('e'::[])))))) } :: ({ m_py =
+    ('l'::('o'::('g'::('1'::('0'::[]))))); m_cpp =
+    ('s'::('t'::('d'::(':'::(':'::('l'::('o'::('g'::('1'::('0'::[]))))))))));
+    m_inc = (('c'::('m'::('a'::('t'::('h'::[]))))) :: []); m_ret =
+    ('d'::('o'::('u'::('b'::('l'::('e'::[])))))) } :: ({ m_py =
+    ('e'::('x'::('p'::('2'::[])))); m_cpp =
+    ('s'::('t'::('d'::(':'::(':'::('e'::('x'::('p'::('2'::[])))))))));
+    m_inc = (('c'::('m'::('a'::('t'::('h'::[]))))) :: []); m_ret =
+    ('d'::('o'::('u'::('b'::('l'::('e'::[])))))) } :: ({ m_py =
+    ('e'::('x'::('p'::('m'::('1'::[]))))); m_cpp =
+    ('s'::('t'::('d'::(':'::(':'::('e'::('x'::('p'::('m'::('1'::[]))))))))));
+    m_inc = (('c'::('m'::('a'::('t'::('h'::[]))))) :: []); m_ret =
+    ('d'::('o'::('u'::('b'::('l'::('e'::[])))))) } :: ({ m_py =
+    ('i'::('l'::('o'::('g'::('b'::[]))))); m_cpp =
+    ('s'::('t'::('d'::(':'::(':'::('i'::('l'::('o'::('g'::('b'::[]))))))))));
+    m_inc = (('c'::('m'::('a'::('t'::('h'::[]))))) :: []); m_ret =
+    ('d'::('o'::('u'::('b'::('l'::('e'::[])))))) } :: ({ m_py =
+    ('l'::('o'::('g'::('1'::('p'::[]))))); m_cpp =
+    ('s'::('t'::('d'::(':'::(':'::('l'::('o'::('g'::('1'::('p'::[]))))))))));
+    m_inc = (('c'::('m'::('a'::('t'::('h'::[]))))) :: []); m_ret =
+    ('d'::('o'::('u'::('b'::('l'::('e'::[])))))) } :: ({ m_py =
+    ('l'::('o'::('g'::('2'::[])))); m_cpp =
+    ('s'::('t'::('d'::(':'::(':'::('l'::('o'::('g'::('2'::[])))))))));
+    m_inc = (('c'::('m'::('a'::('t'::('h'::[]))))) :: []); m_ret =
+    ('d'::('o'::('u'::('b'::('l'::('e'::[])))))) } :: ({ m_py =
+    ('s'::('c'::('a'::('l'::('b'::('n'::[])))))); m_cpp =
+    ('s'::('t'::('d'::(':'::(':'::('s'::('c'::('a'::('l'::('b'::('n'::[])))))))))));
+    m_inc = (('c'::('m'::('a'::('t'::('h'::[]))))) :: []); m_ret =
+    ('d'::('o'::('u'::('b'::('l'::('e'::[])))))) } :: ({ m_py =
+    ('s'::('c'::('a'::('l'::('b'::('l'::('n'::[]))))))); m_cpp =
+    ('s'::('t'::('d'::(':'::(':'::('s'::('c'::('a'::('l'::('b'::('l'::('n'::[]))))))))))));
+    m_inc = (('c'::('m'::('a'::('t'::('h'::[]))))) :: []); m_ret =
+    ('d'::('o'::('u'::('b'::('l'::('e'::[])))))) } :: ({ m_py =
+    ('p'::('o'::('w'::[]))); m_cpp =
+    ('s'::('t'::('d'::(':'::(':'::('p'::('o'::('w'::[])))))))); m_inc =
+    (('c'::('m'::('a'::('t'::('h'::[]))))) :: []); m_ret =
+    ('d'::('o'::('u'::('b'::('l'::('e'::[])))))) } :: ({ m_py =
+    ('s'::('q'::('r'::('t'::[])))); m_cpp =
+    ('s'::('t'::('d'::(':'::(':'::('s'::('q'::('r'::('t'::[])))))))));
+    m_inc = (('c'::('m'::('a'::('t'::('h'::[]))))) :: []); m_ret =
+    ('d'::('o'::('u'::('b'::('l'::('e'::[])))))) } :: ({ m_py =
+    ('c'::('b'::('r'::('t'::[])))); m_cpp =
+    ('s'::('t'::('d'::(':'::(':'::('c'::('b'::('r'::('t'::[])))))))));
+    m_inc = (('c'::('m'::('a'::('t'::('h'::[]))))) :: []); m_ret =
+    ('d'::('o'::('u'::('b'::('l'::('e'::[])))))) } :: ({ m_py =
+    ('h'::('y'::('p'::('o'::('t'::[]))))); m_cpp =
+    ('s'::('t'::('d'::(':'::(':'::('h'::('y'::('p'::('o'::('t'::[]))))))))));
+    m_inc = (('c'::('m'::('a'::('t'::('h'::[]))))) :: []); m_ret =
+    ('d'::('o'::('u'::('b'::('l'::('e'::[])))))) } :: ({ m_py =
+    ('e'::('r'::('f'::[]))); m_cpp =
+    ('s'::('t'::('d'::(':'::(':'::('e'::('r'::('f'::[])))))))); m_inc =
+    (('c'::('m'::('a'::('t'::('h'::[]))))) :: []); m_ret =
+    ('d'::('o'::('u'::('b'::('l'::('e'::[])))))) } :: ({ m_py =
+    ('e'::('r'::('f'::('c'::[])))); m_cpp =
+    ('s'::('t'::('d'::(':'::(':'::('e'::('r'::('f'::('c'::[])))))))));
+    m_inc = (('c'::('m'::('a'::('t'::('h'::[]))))) :: []); m_ret =
+    ('d'::('o'::('u'::('b'::('l'::('e'::[])))))) } :: ({ m_py =
+    ('t'::('g'::('a'::('m'::('m'::('a'::[])))))); m_cpp =
+    ('s'::('t'::('d'::(':'::(':'::('t'::('g'::('a'::('m'::('m'::('a'::[])))))))))));
+    m_inc = (('c'::('m'::('a'::('t'::('h'::[]))))) :: []); m_ret =
+    ('d'::('o'::('u'::('b'::('l'::('e'::[])))))) } :: ({ m_py =
+    ('l'::('g'::('a'::('m'::('m'::('a'::[])))))); m_cpp =
+    ('s'::('t'::('d'::(':'::(':'::('l'::('g'::('a'::('m'::('m'::('a'::[])))))))))));
+    m_inc = (('c'::('m'::('a'::('t'::('h'::[]))))) :: []); m_ret =
+    ('d'::('o'::('u'::('b'::('l'::('e'::[])))))) } :: ({ m_py =
+    ('c'::('e'::('i'::('l'::[])))); m_cpp =
+    ('s'::('t'::('d'::(':'::(':'::('c'::('e'::('i'::('l'::[])))))))));
+    m_inc = (('c'::('m'::('a'::('t'::('h'::[]))))) :: []); m_ret =
+    ('d'::('o'::('u'::('b'::('l'::('e'::[])))))) } :: ({ m_py =
+    ('f'::('l'::('o'::('o'::('r'::[]))))); m_cpp =
+    ('s'::('t'::('d'::(':'::(':'::('f'::('l'::('o'::('o'::('r'::[]))))))))));
+    m_inc = (('c'::('m'::('a'::('t'::('h'::[]))))) :: []); m_ret =
+    ('d'::('o'::('u'::('b'::('l'::('e'::[])))))) } :: ({ m_py =
+    ('f'::('m'::('o'::('d'::[])))); m_cpp =
+    ('s'::('t'::('d'::(':'::(':'::('f'::('m'::('o'::('d'::[])))))))));
+    m_inc = (('c'::('m'::('a'::('t'::('h'::[]))))) :: []); m_ret =
+    ('d'::('o'::('u'::('b'::('l'::('e'::[])))))) } :: ({ m_py =
+    ('t'::('r'::('u'::('n'::('c'::[]))))); m_cpp =
+    ('s'::('t'::('d'::(':'::(':'::('t'::('r'::('u'::('n'::('c'::[]))))))))));
+    m_inc = (('c'::('m'::('a'::('t'::('h'::[]))))) :: []); m_ret =
+    ('d'::('o'::('u'::('b'::('l'::('e'::[])))))) } :: ({ m_py =
+    ('r'::('o'::('u'::('n'::('d'::[]))))); m_cpp =
+    ('s'::('t'::('d'::(':'::(':'::('r'::('o'::('u'::('n'::('d'::[]))))))))));
+    m_inc = (('c'::('m'::('a'::('t'::('h'::[]))))) :: []); m_ret =
+    ('d'::('o'::('u'::('b'::('l'::('e'::[])))))) } :: ({ m_py =
+    ('r'::('i'::('n'::('t'::[])))); m_cpp =
+    ('s'::('t'::('d'::(':'::(':'::('r'::('i'::('n'::('t'::[])))))))));
+    m_inc = (('c'::('m'::('a'::('t'::('h'::[]))))) :: []); m_ret =
+    ('d'::('o'::('u'::('b'::('l'::('e'::[])))))) } :: ({ m_py =
+    ('n'::('e'::('a'::('r'::('b'::('y'::('i'::('n'::('t'::[])))))))));
+    m_cpp =
+    ('s'::('t'::('d'::(':'::(':'::('n'::('e'::('a'::('r'::('b'::('y'::('i'::('n'::('t'::[]))))))))))))));
+    m_inc = (('c'::('m'::('a'::('t'::('h'::[]))))) :: []); m_ret =
+    ('d'::('o'::('u'::('b'::('l'::('e'::[])))))) } :: ({ m_py =
+    ('r'::('e'::('m'::('a'::('i'::('n'::('d'::('e'::('r'::[])))))))));
+    m_cpp =
+    ('s'::('t'::('d'::(':'::(':'::('r'::('e'::('m'::('a'::('i'::('n'::('d'::('e'::('r'::[]))))))))))))));
+    m_inc = (('c'::('m'::('a'::('t'::('h'::[]))))) :: []); m_ret =
+    ('d'::('o'::('u'::('b'::('l'::('e'::[])))))) } :: ({ m_py =
+    ('r'::('e'::('m'::('q'::('u'::('o'::[])))))); m_cpp =
+    ('s'::('t'::('d'::(':'::(':'::('r'::('e'::('m'::('q'::('u'::('o'::[])))))))))));
+    m_inc = (('c'::('m'::('a'::('t'::('h'::[]))))) :: []); m_ret =
+    ('d'::('o'::('u'::('b'::('l'::('e'::[])))))) } :: ({ m_py =
+    ('c'::('o'::('p'::('y'::('s'::('i'::('g'::('n'::[])))))))); m_cpp =
+    ('s'::('t'::('d'::(':'::(':'::('c'::('o'::('p'::('y'::('s'::('i'::('g'::('n'::[])))))))))))));
+    m_inc = (('c'::('m'::('a'::('t'::('h'::[]))))) :: []); m_ret =
+    ('d'::('o'::('u'::('b'::('l'::('e'::[])))))) } :: ({ m_py =
+    ('n'::('a'::('n'::[]))); m_cpp =
+    ('s'::('t'::('d'::(':'::(':'::('n'::('a'::('n'::[])))))))); m_inc =
+    (('c'::('m'::('a'::('t'::('h'::[]))))) :: []); m_ret =
+    ('d'::('o'::('u'::('b'::('l'::('e'::[])))))) } :: ({ m_py =
+    ('n'::('e'::('x'::('t'::('a'::('f'::('t'::('e'::('r'::[])))))))));
+    m_cpp =
+    ('s'::('t'::('d'::(':'::(':'::('n'::('e'::('x'::('t'::('a'::('f'::('t'::('e'::('r'::[]))))))))))))));
+    m_inc = (('c'::('m'::('a'::('t'::('h'::[]))))) :: []); m_ret =
+    ('d'::('o'::('u'::('b'::('l'::('e'::[])))))) } :: ({ m_py =
+    ('n'::('e'::('x'::('t'::('t'::('o'::('w'::('a'::('r'::('d'::[]))))))))));
+    m_cpp =
+    ('s'::('t'::('d'::(':'::(':'::('n'::('e'::('x'::('t'::('t'::('o'::('w'::('a'::('r'::('d'::[])))))))))))))));
+    m_inc = (('c'::('m'::('a'::('t'::('h'::[]))))) :: []); m_ret =
+    ('d'::('o'::('u'::('b'::('l'::('e'::[])))))) } :: ({ m_py =
+    ('f'::('d'::('i'::('m'::[])))); m_cpp =
+    ('s'::('t'::('d'::(':'::(':'::('f'::('d'::('i'::('m'::[])))))))));
+    m_inc = (('c'::('m'::('a'::('t'::('h'::[]))))) :: []); m_ret =
+    ('d'::('o'::('u'::('b'::('l'::('e'::[])))))) } :: ({ m_py =
+    ('f'::('m'::('a'::('x'::[])))); m_cpp =
+    ('s'::('t'::('d'::(':'::(':'::('f'::('m'::('a'::('x'::[])))))))));
+    m_inc = (('c'::('m'::('a'::('t'::('h'::[]))))) :: []); m_ret =
+    ('d'::('o'::('u'::('b'::('l'::('e'::[])))))) } :: ({ m_py =
+    ('f'::('m'::('i'::('n'::[])))); m_cpp =
+    ('s'::('t'::('d'::(':'::(':'::('f'::('m'::('i'::('n'::[])))))))));
+    m_inc = (('c'::('m'::('a'::('t'::('h'::[]))))) :: []); m_ret =
+    ('d'::('o'::('u'::('b'::('l'::('e'::[])))))) } :: ({ m_py =
+    ('f'::('a'::('b'::('s'::[])))); m_cpp =
+    ('s'::('t'::('d'::(':'::(':'::('f'::('a'::('b'::('s'::[])))))))));
+    m_inc = (('c'::('m'::('a'::('t'::('h'::[]))))) :: []); m_ret =
+    ('d'::('o'::('u'::('b'::('l'::('e'::[])))))) } :: ({ m_py =
+    ('a'::('b'::('s'::[]))); m_cpp =
+    ('s'::('t'::('d'::(':'::(':'::('f'::('a'::('b'::('s'::[])))))))));
+    m_inc = (('c'::('m'::('a'::('t'::('h'::[]))))) :: []); m_ret =
+    ('d'::('o'::('u'::('b'::('l'::('e'::[])))))) } :: ({ m_py =
+    ('f'::('m'::('a'::[]))); m_cpp =
+    ('s'::('t'::('d'::(':'::(':'::('f'::('m'::('a'::[])))))))); m_inc =
+    (('c'::('m'::('a'::('t'::('h'::[]))))) :: []); m_ret =
+    ('d'::('o'::('u'::('b'::('l'::('e'::[])))))) } :: ({ m_py =
+    ('b'::('u'::('i'::('l'::('t'::('i'::('n'::('s'::('.'::('a'::('b'::('s'::[]))))))))))));
+    m_cpp = ('s'::('t'::('d'::(':'::(':'::('a'::('b'::('s'::[]))))))));
+    m_inc = (('c'::('m'::('a'::('t'::('h'::[]))))) :: []); m_ret =
+    ('d'::('o'::('u'::('b'::('l'::('e'::[])))))) } :: ({ m_py =
+    ('b'::('u'::('i'::('l'::('t'::('i'::('n'::('s'::('.'::('p'::('o'::('w'::[]))))))))))));
+    m_cpp = ('s'::('t'::('d'::(':'::(':'::('p'::('o'::('w'::[]))))))));
+    m_inc = (('c'::('m'::('a'::('t'::('h'::[]))))) :: []); m_ret =
+    ('d'::('o'::('u'::('b'::('l'::('e'::[])))))) } :: ({ m_py =
+    ('b'::('u'::('i'::('l'::('t'::('i'::('n'::('s'::('.'::('r'::('o'::('u'::('n'::('d'::[]))))))))))))));
+    m_cpp =
+    ('s'::('t'::('d'::(':'::(':'::('r'::('o'::('u'::('n'::('d'::[]))))))))));
+    m_inc = (('c'::('m'::('a'::('t'::('h'::[]))))) :: []); m_ret =
+    ('d'::('o'::('u'::('b'::('l'::('e'::[])))))) } :: []))))))))))))))))))))))))))))))))))))))))))))))))))))))
 
 (** val module_names : char list list **)
 
 let module_names =
-  []
+  ('a'::('s'::('t'::[]))) :: (('n'::('a'::('m'::('e'::('d'::('t'::('u'::('p'::('l'::('e'::[])))))))))) :: (('F'::('u'::('n'::('c'::('t'::('i'::('o'::('n'::('A'::('S'::('T'::[]))))))))))) :: (('f'::('i'::('n'::('d'::('_'::('k'::('n'::('o'::('w'::('n'::('_'::('f'::('u'::('n'::('c'::('t'::('i'::('o'::('n'::('s'::[])))))))))))))))))))) :: (('a'::('d'::('d'::('_'::('f'::('u'::('n'::('c'::('t'::('i'::('o'::('n'::('_'::('m'::('a'::('p'::('p'::('i'::('n'::('g'::[])))))))))))))))))))) :: (('f'::('u'::('n'::('c'::('t'::('i'::('o'::('n'::('s'::('_'::('t'::('o'::('_'::('r'::('e'::('p'::('l'::('a'::('c'::('e'::[])))))))))))))))))))) :: (('c'::('p'::('p'::('_'::('f'::('u'::('n'::('c'::('t'::('i'::('o'::('n'::[])))))))))))) :: []))))))
 
 (** val builtin_names : (char list * char list) list **)
 
 let builtin_names =
-  []
+  (('A'::('r'::('i'::('t'::('h'::('m'::('e'::('t'::('i'::('c'::('E'::('r'::('r'::('o'::('r'::[]))))))))))))))),
+    ('b'::('u'::('i'::('l'::('t'::('i'::('n'::('s'::[]))))))))) :: ((('A'::('s'::('s'::('e'::('r'::('t'::('i'::('o'::('n'::('E'::('r'::('r'::('o'::('r'::[])))))))))))))),
+    ('b'::('u'::('i'::('l'::('t'::('i'::('n'::('s'::[]))))))))) :: ((('A'::('t'::('t'::('r'::('i'::('b'::('u'::('t'::('e'::('E'::('r'::('r'::('o'::('r'::[])))))))))))))),
+    ('b'::('u'::('i'::('l'::('t'::('i'::('n'::('s'::[]))))))))) :: ((('B'::('a'::('s'::('e'::('E'::('x'::('c'::('e'::('p'::('t'::('i'::('o'::('n'::[]))))))))))))),
+    ('b'::('u'::('i'::('l'::('t'::('i'::('n'::('s'::[]))))))))) :: ((('B'::('a'::('s'::('e'::('E'::('x'::('c'::('e'::('p'::('t'::('i'::('o'::('n'::('G'::('r'::('o'::('u'::('p'::[])))))))))))))))))),
+    ('b'::('u'::('i'::('l'::('t'::('i'::('n'::('s'::[]))))))))) :: ((('B'::('l'::('o'::('c'::('k'::('i'::('n'::('g'::('I'::('O'::('E'::('r'::('r'::('o'::('r'::[]))))))))))))))),
+    ('b'::('u'::('i'::('l'::('t'::('i'::('n'::('s'::[]))))))))) :: ((('B'::('r'::('o'::('k'::('e'::('n'::('P'::('i'::('p'::('e'::('E'::('r'::('r'::('o'::('r'::[]))))))))))))))),
+    ('b'::('u'::('i'::('l'::('t'::('i'::('n'::('s'::[]))))))))) :: ((('B'::('u'::('f'::('f'::('e'::('r'::('E'::('r'::('r'::('o'::('r'::[]))))))))))),
+    ('b'::('u'::('i'::('l'::('t'::('i'::('n'::('s'::[]))))))))) :: ((('B'::('y'::('t'::('e'::('s'::('W'::('a'::('r'::('n'::('i'::('n'::('g'::[])))))))))))),
+    ('b'::('u'::('i'::('l'::('t'::('i'::('n'::('s'::[]))))))))) :: ((('C'::('h'::('i'::('l'::('d'::('P'::('r'::('o'::('c'::('e'::('s'::('s'::('E'::('r'::('r'::('o'::('r'::[]))))))))))))))))),
+    ('b'::('u'::('i'::('l'::('t'::('i'::('n'::('s'::[]))))))))) :: ((('C'::('o'::('n'::('n'::('e'::('c'::('t'::('i'::('o'::('n'::('A'::('b'::('o'::('r'::('t'::('e'::('d'::('E'::('r'::('r'::('o'::('r'::[])))))))))))))))))))))),
+    ('b'::('u'::('i'::('l'::('t'::('i'::('n'::('s'::[]))))))))) :: ((('C'::('o'::('n'::('n'::('e'::('c'::('t'::('i'::('o'::('n'::('E'::('r'::('r'::('o'::('r'::[]))))))))))))))),
+    ('b'::('u'::('i'::('l'::('t'::('i'::('n'::('s'::[]))))))))) :: ((('C'::('o'::('n'::('n'::('e'::('c'::('t'::('i'::('o'::('n'::('R'::('e'::('f'::('u'::('s'::('e'::('d'::('E'::('r'::('r'::('o'::('r'::[])))))))))))))))))))))),
+    ('b'::('u'::('i'::('l'::('t'::('i'::('n'::('s'::[]))))))))) :: ((('C'::('o'::('n'::('n'::('e'::('c'::('t'::('i'::('o'::('n'::('R'::('e'::('s'::('e'::('t'::('E'::('r'::('r'::('o'::('r'::[])))))))))))))))))))),
+    ('b'::('u'::('i'::('l'::('t'::('i'::('n'::('s'::[]))))))))) :: ((('D'::('e'::('p'::('r'::('e'::('c'::('a'::('t'::('i'::('o'::('n'::('W'::('a'::('r'::('n'::('i'::('n'::('g'::[])))))))))))))))))),
+    ('b'::('u'::('i'::('l'::('t'::('i'::('n'::('s'::[]))))))))) :: ((('E'::('O'::('F'::('E'::('r'::('r'::('o'::('r'::[])))))))),
+    ('b'::('u'::('i'::('l'::('t'::('i'::('n'::('s'::[]))))))))) :: ((('E'::('l'::('l'::('i'::('p'::('s'::('i'::('s'::[])))))))),
+    ('-'::[])) :: ((('E'::('n'::('c'::('o'::('d'::('i'::('n'::('g'::('W'::('a'::('r'::('n'::('i'::('n'::('g'::[]))))))))))))))),
+    ('b'::('u'::('i'::('l'::('t'::('i'::('n'::('s'::[]))))))))) :: ((('E'::('n'::('v'::('i'::('r'::('o'::('n'::('m'::('e'::('n'::('t'::('E'::('r'::('r'::('o'::('r'::[])))))))))))))))),
+    ('b'::('u'::('i'::('l'::('t'::('i'::('n'::('s'::[]))))))))) :: ((('E'::('x'::('c'::('e'::('p'::('t'::('i'::('o'::('n'::[]))))))))),
+    ('b'::('u'::('i'::('l'::('t'::('i'::('n'::('s'::[]))))))))) :: ((('E'::('x'::('c'::('e'::('p'::('t'::('i'::('o'::('n'::('G'::('r'::('o'::('u'::('p'::[])))))))))))))),
+    ('b'::('u'::('i'::('l'::('t'::('i'::('n'::('s'::[]))))))))) :: ((('F'::('a'::('l'::('s'::('e'::[]))))),
+    ('-'::[])) :: ((('F'::('i'::('l'::('e'::('E'::('x'::('i'::('s'::('t'::('s'::('E'::('r'::('r'::('o'::('r'::[]))))))))))))))),
+    ('b'::('u'::('i'::('l'::('t'::('i'::('n'::('s'::[]))))))))) :: ((('F'::('i'::('l'::('e'::('N'::('o'::('t'::('F'::('o'::('u'::('n'::('d'::('E'::('r'::('r'::('o'::('r'::[]))))))))))))))))),
+    ('b'::('u'::('i'::('l'::('t'::('i'::('n'::('s'::[]))))))))) :: ((('F'::('l'::('o'::('a'::('t'::('i'::('n'::('g'::('P'::('o'::('i'::('n'::('t'::('E'::('r'::('r'::('o'::('r'::[])))))))))))))))))),
+    ('b'::('u'::('i'::('l'::('t'::('i'::('n'::('s'::[]))))))))) :: ((('F'::('u'::('t'::('u'::('r'::('e'::('W'::('a'::('r'::('n'::('i'::('n'::('g'::[]))))))))))))),
+    ('b'::('u'::('i'::('l'::('t'::('i'::('n'::('s'::[]))))))))) :: ((('G'::('e'::('n'::('e'::('r'::('a'::('t'::('o'::('r'::('E'::('x'::('i'::('t'::[]))))))))))))),
+    ('b'::('u'::('i'::('l'::('t'::('i'::('n'::('s'::[]))))))))) :: ((('I'::('O'::('E'::('r'::('r'::('o'::('r'::[]))))))),
+    ('b'::('u'::('i'::('l'::('t'::('i'::('n'::('s'::[]))))))))) :: ((('I'::('m'::('p'::('o'::('r'::('t'::('E'::('r'::('r'::('o'::('r'::[]))))))))))),
+    ('b'::('u'::('i'::('l'::('t'::('i'::('n'::('s'::[]))))))))) :: ((('I'::('m'::('p'::('o'::('r'::('t'::('W'::('a'::('r'::('n'::('i'::('n'::('g'::[]))))))))))))),
+    ('b'::('u'::('i'::('l'::('t'::('i'::('n'::('s'::[]))))))))) :: ((('I'::('n'::('d'::('e'::('n'::('t'::('a'::('t'::('i'::('o'::('n'::('E'::('r'::('r'::('o'::('r'::[])))))))))))))))),
+    ('b'::('u'::('i'::('l'::('t'::('i'::('n'::('s'::[]))))))))) :: ((('I'::('n'::('d'::('e'::('x'::('E'::('r'::('r'::('o'::('r'::[])))))))))),
+    ('b'::('u'::('i'::('l'::('t'::('i'::('n'::('s'::[]))))))))) :: ((('I'::('n'::('t'::('e'::('r'::('r'::('u'::('p'::('t'::('e'::('d'::('E'::('r'::('r'::('o'::('r'::[])))))))))))))))),
+    ('b'::('u'::('i'::('l'::('t'::('i'::('n'::('s'::[]))))))))) :: ((('I'::('s'::('A'::('D'::('i'::('r'::('e'::('c'::('t'::('o'::('r'::('y'::('E'::('r'::('r'::('o'::('r'::[]))))))))))))))))),
+    ('b'::('u'::('i'::('l'::('t'::('i'::('n'::('s'::[]))))))))) :: ((('K'::('e'::('y'::('E'::('r'::('r'::('o'::('r'::[])))))))),
+    ('b'::('u'::('i'::('l'::('t'::('i'::('n'::('s'::[]))))))))) :: ((('K'::('e'::('y'::('b'::('o'::('a'::('r'::('d'::('I'::('n'::('t'::('e'::('r'::('r'::('u'::('p'::('t'::[]))))))))))))))))),
+    ('b'::('u'::('i'::('l'::('t'::('i'::('n'::('s'::[]))))))))) :: ((('L'::('o'::('o'::('k'::('u'::('p'::('E'::('r'::('r'::('o'::('r'::[]))))))))))),
+    ('b'::('u'::('i'::('l'::('t'::('i'::('n'::('s'::[]))))))))) :: ((('M'::('e'::('m'::('o'::('r'::('y'::('E'::('r'::('r'::('o'::('r'::[]))))))))))),
+    ('b'::('u'::('i'::('l'::('t'::('i'::('n'::('s'::[]))))))))) :: ((('M'::('o'::('d'::('u'::('l'::('e'::('N'::('o'::('t'::('F'::('o'::('u'::('n'::('d'::('E'::('r'::('r'::('o'::('r'::[]))))))))))))))))))),
+    ('b'::('u'::('i'::('l'::('t'::('i'::('n'::('s'::[]))))))))) :: ((('N'::('a'::('m'::('e'::('E'::('r'::('r'::('o'::('r'::[]))))))))),
+    ('b'::('u'::('i'::('l'::('t'::('i'::('n'::('s'::[]))))))))) :: ((('N'::('o'::('n'::('e'::[])))),
+    ('-'::[])) :: ((('N'::('o'::('t'::('A'::('D'::('i'::('r'::('e'::('c'::('t'::('o'::('r'::('y'::('E'::('r'::('r'::('o'::('r'::[])))))))))))))))))),
+    ('b'::('u'::('i'::('l'::('t'::('i'::('n'::('s'::[]))))))))) :: ((('N'::('o'::('t'::('I'::('m'::('p'::('l'::('e'::('m'::('e'::('n'::('t'::('e'::('d'::[])))))))))))))),
+    ('-'::[])) :: ((('N'::('o'::('t'::('I'::('m'::('p'::('l'::('e'::('m'::('e'::('n'::('t'::('e'::('d'::('E'::('r'::('r'::('o'::('r'::[]))))))))))))))))))),
+    ('b'::('u'::('i'::('l'::('t'::('i'::('n'::('s'::[]))))))))) :: ((('O'::('S'::('E'::('r'::('r'::('o'::('r'::[]))))))),
+    ('b'::('u'::('i'::('l'::('t'::('i'::('n'::('s'::[]))))))))) :: ((('O'::('v'::('e'::('r'::('f'::('l'::('o'::('w'::('E'::('r'::('r'::('o'::('r'::[]))))))))))))),
+    ('b'::('u'::('i'::('l'::('t'::('i'::('n'::('s'::[]))))))))) :: ((('P'::('e'::('n'::('d'::('i'::('n'::('g'::('D'::('e'::('p'::('r'::('e'::('c'::('a'::('t'::('i'::('o'::('n'::('W'::('a'::('r'::('n'::('i'::('n'::('g'::[]))))))))))))))))))))))))),
+    ('b'::('u'::('i'::('l'::('t'::('i'::('n'::('s'::[]))))))))) :: ((('P'::('e'::('r'::('m'::('i'::('s'::('s'::('i'::('o'::('n'::('E'::('r'::('r'::('o'::('r'::[]))))))))))))))),
+    ('b'::('u'::('i'::('l'::('t'::('i'::('n'::('s'::[]))))))))) :: ((('P'::('r'::('o'::('c'::('e'::('s'::('s'::('L'::('o'::('o'::('k'::('u'::('p'::('E'::('r'::('r'::('o'::('r'::[])))))))))))))))))),
+    ('b'::('u'::('i'::('l'::('t'::('i'::('n'::('s'::[]))))))))) :: ((('R'::('e'::('c'::('u'::('r'::('s'::('i'::('o'::('n'::('E'::('r'::('r'::('o'::('r'::[])))))))))))))),
+    ('b'::('u'::('i'::('l'::('t'::('i'::('n'::('s'::[]))))))))) :: ((('R'::('e'::('f'::('e'::('r'::('e'::('n'::('c'::('e'::('E'::('r'::('r'::('o'::('r'::[])))))))))))))),
+    ('b'::('u'::('i'::('l'::('t'::('i'::('n'::('s'::[]))))))))) :: ((('R'::('e'::('s'::('o'::('u'::('r'::('c'::('e'::('W'::('a'::('r'::('n'::('i'::('n'::('g'::[]))))))))))))))),
+    ('b'::('u'::('i'::('l'::('t'::('i'::('n'::('s'::[]))))))))) :: ((('R'::('u'::('n'::('t'::('i'::('m'::('e'::('E'::('r'::('r'::('o'::('r'::[])))))))))))),
+    ('b'::('u'::('i'::('l'::('t'::('i'::('n'::('s'::[]))))))))) :: ((('R'::('u'::('n'::('t'::('i'::('m'::('e'::('W'::('a'::('r'::('n'::('i'::('n'::('g'::[])))))))))))))),
+    ('b'::('u'::('i'::('l'::('t'::('i'::('n'::('s'::[]))))))))) :: ((('S'::('t'::('o'::('p'::('A'::('s'::('y'::('n'::('c'::('I'::('t'::('e'::('r'::('a'::('t'::('i'::('o'::('n'::[])))))))))))))))))),
+    ('b'::('u'::('i'::('l'::('t'::('i'::('n'::('s'::[]))))))))) :: ((('S'::('t'::('o'::('p'::('I'::('t'::('e'::('r'::('a'::('t'::('i'::('o'::('n'::[]))))))))))))),
+    ('b'::('u'::('i'::('l'::('t'::('i'::('n'::('s'::[]))))))))) :: ((('S'::('y'::('n'::('t'::('a'::('x'::('E'::('r'::('r'::('o'::('r'::[]))))))))))),
+    ('b'::('u'::('i'::('l'::('t'::('i'::('n'::('s'::[]))))))))) :: ((('S'::('y'::('n'::('t'::('a'::('x'::('W'::('a'::('r'::('n'::('i'::('n'::('g'::[]))))))))))))),
+    ('b'::('u'::('i'::('l'::('t'::('i'::('n'::('s'::[]))))))))) :: ((('S'::('y'::('s'::('t'::('e'::('m'::('E'::('r'::('r'::('o'::('r'::[]))))))))))),
+    ('b'::('u'::('i'::('l'::('t'::('i'::('n'::('s'::[]))))))))) :: ((('S'::('y'::('s'::('t'::('e'::('m'::('E'::('x'::('i'::('t'::[])))))))))),
+    ('b'::('u'::('i'::('l'::('t'::('i'::('n'::('s'::[]))))))))) :: ((('T'::('a'::('b'::('E'::('r'::('r'::('o'::('r'::[])))))))),
+    ('b'::('u'::('i'::('l'::('t'::('i'::('n'::('s'::[]))))))))) :: ((('T'::('i'::('m'::('e'::('o'::('u'::('t'::('E'::('r'::('r'::('o'::('r'::[])))))))))))),
+    ('b'::('u'::('i'::('l'::('t'::('i'::('n'::('s'::[]))))))))) :: ((('T'::('r'::('u'::('e'::[])))),
+    ('-'::[])) :: ((('T'::('y'::('p'::('e'::('E'::('r'::('r'::('o'::('r'::[]))))))))),
+    ('b'::('u'::('i'::('l'::('t'::('i'::('n'::('s'::[]))))))))) :: ((('U'::('n'::('b'::('o'::('u'::('n'::('d'::('L'::('o'::('c'::('a'::('l'::('E'::('r'::('r'::('o'::('r'::[]))))))))))))))))),
+    ('b'::('u'::('i'::('l'::('t'::('i'::('n'::('s'::[]))))))))) :: ((('U'::('n'::('i'::('c'::('o'::('d'::('e'::('D'::('e'::('c'::('o'::('d'::('e'::('E'::('r'::('r'::('o'::('r'::[])))))))))))))))))),
+    ('b'::('u'::('i'::('l'::('t'::('i'::('n'::('s'::[]))))))))) :: ((('U'::('n'::('i'::('c'::('o'::('d'::('e'::('E'::('n'::('c'::('o'::('d'::('e'::('E'::('r'::('r'::('o'::('r'::[])))))))))))))))))),
+    ('b'::('u'::('i'::('l'::('t'::('i'::('n'::('s'::[]))))))))) :: ((('U'::('n'::('i'::('c'::('o'::('d'::('e'::('E'::('r'::('r'::('o'::('r'::[])))))))))))),
+    ('b'::('u'::('i'::('l'::('t'::('i'::('n'::('s'::[]))))))))) :: ((('U'::('n'::('i'::('c'::('o'::('d'::('e'::('T'::('r'::('a'::('n'::('s'::('l'::('a'::('t'::('e'::('E'::('r'::('r'::('o'::('r'::[]))))))))))))))))))))),
+    ('b'::('u'::('i'::('l'::('t'::('i'::('n'::('s'::[]))))))))) :: ((('U'::('n'::('i'::('c'::('o'::('d'::('e'::('W'::('a'::('r'::('n'::('i'::('n'::('g'::[])))))))))))))),
+    ('b'::('u'::('i'::('l'::('t'::('i'::('n'::('s'::[]))))))))) :: ((('U'::('s'::('e'::('r'::('W'::('a'::('r'::('n'::('i'::('n'::('g'::[]))))))))))),
+    ('b'::('u'::('i'::('l'::('t'::('i'::('n'::('s'::[]))))))))) :: ((('V'::('a'::('l'::('u'::('e'::('E'::('r'::('r'::('o'::('r'::[])))))))))),
+    ('b'::('u'::('i'::('l'::('t'::('i'::('n'::('s'::[]))))))))) :: ((('W'::('a'::('r'::('n'::('i'::('n'::('g'::[]))))))),
+    ('b'::('u'::('i'::('l'::('t'::('i'::('n'::('s'::[]))))))))) :: ((('Z'::('e'::('r'::('o'::('D'::('i'::('v'::('i'::('s'::('i'::('o'::('n'::('E'::('r'::('r'::('o'::('r'::[]))))))))))))))))),
+    ('b'::('u'::('i'::('l'::('t'::('i'::('n'::('s'::[]))))))))) :: ((('_'::('_'::('b'::('u'::('i'::('l'::('d'::('_'::('c'::('l'::('a'::('s'::('s'::('_'::('_'::[]))))))))))))))),
+    ('b'::('u'::('i'::('l'::('t'::('i'::('n'::('s'::[]))))))))) :: ((('_'::('_'::('d'::('e'::('b'::('u'::('g'::('_'::('_'::[]))))))))),
+    ('-'::[])) :: ((('_'::('_'::('d'::('o'::('c'::('_'::('_'::[]))))))),
+    ('-'::[])) :: ((('_'::('_'::('i'::('m'::('p'::('o'::('r'::('t'::('_'::('_'::[])))))))))),
+    ('b'::('u'::('i'::('l'::('t'::('i'::('n'::('s'::[]))))))))) :: ((('_'::('_'::('l'::('o'::('a'::('d'::('e'::('r'::('_'::('_'::[])))))))))),
+    ('_'::('f'::('r'::('o'::('z'::('e'::('n'::('_'::('i'::('m'::('p'::('o'::('r'::('t'::('l'::('i'::('b'::[])))))))))))))))))) :: ((('_'::('_'::('n'::('a'::('m'::('e'::('_'::('_'::[])))))))),
+    ('-'::[])) :: ((('_'::('_'::('p'::('a'::('c'::('k'::('a'::('g'::('e'::('_'::('_'::[]))))))))))),
+    ('-'::[])) :: ((('_'::('_'::('s'::('p'::('e'::('c'::('_'::('_'::[])))))))),
+    ('_'::('f'::('r'::('o'::('z'::('e'::('n'::('_'::('i'::('m'::('p'::('o'::('r'::('t'::('l'::('i'::('b'::[])))))))))))))))))) :: ((('a'::('b'::('s'::[]))),
+    ('b'::('u'::('i'::('l'::('t'::('i'::('n'::('s'::[]))))))))) :: ((('a'::('i'::('t'::('e'::('r'::[]))))),
+    ('b'::('u'::('i'::('l'::('t'::('i'::('n'::('s'::[]))))))))) :: ((('a'::('l'::('l'::[]))),
+    ('b'::('u'::('i'::('l'::('t'::('i'::('n'::('s'::[]))))))))) :: ((('a'::('n'::('e'::('x'::('t'::[]))))),
+    ('b'::('u'::('i'::('l'::('t'::('i'::('n'::('s'::[]))))))))) :: ((('a'::('n'::('y'::[]))),
+    ('b'::('u'::('i'::('l'::('t'::('i'::('n'::('s'::[]))))))))) :: ((('a'::('s'::('c'::('i'::('i'::[]))))),
+    ('b'::('u'::('i'::('l'::('t'::('i'::('n'::('s'::[]))))))))) :: ((('b'::('i'::('n'::[]))),
+    ('b'::('u'::('i'::('l'::('t'::('i'::('n'::('s'::[]))))))))) :: ((('b'::('o'::('o'::('l'::[])))),
+    ('b'::('u'::('i'::('l'::('t'::('i'::('n'::('s'::[]))))))))) :: ((('b'::('r'::('e'::('a'::('k'::('p'::('o'::('i'::('n'::('t'::[])))))))))),
+    ('b'::('u'::('i'::('l'::('t'::('i'::('n'::('s'::[]))))))))) :: ((('b'::('y'::('t'::('e'::('a'::('r'::('r'::('a'::('y'::[]))))))))),
+    ('b'::('u'::('i'::('l'::('t'::('i'::('n'::('s'::[]))))))))) :: ((('b'::('y'::('t'::('e'::('s'::[]))))),
+    ('b'::('u'::('i'::('l'::('t'::('i'::('n'::('s'::[]))))))))) :: ((('c'::('a'::('l'::('l'::('a'::('b'::('l'::('e'::[])))))))),
+    ('b'::('u'::('i'::('l'::('t'::('i'::('n'::('s'::[]))))))))) :: ((('c'::('h'::('r'::[]))),
+    ('b'::('u'::('i'::('l'::('t'::('i'::('n'::('s'::[]))))))))) :: ((('c'::('l'::('a'::('s'::('s'::('m'::('e'::('t'::('h'::('o'::('d'::[]))))))))))),
+    ('b'::('u'::('i'::('l'::('t'::('i'::('n'::('s'::[]))))))))) :: ((('c'::('o'::('m'::('p'::('i'::('l'::('e'::[]))))))),
+    ('b'::('u'::('i'::('l'::('t'::('i'::('n'::('s'::[]))))))))) :: ((('c'::('o'::('m'::('p'::('l'::('e'::('x'::[]))))))),
+    ('b'::('u'::('i'::('l'::('t'::('i'::('n'::('s'::[]))))))))) :: ((('c'::('o'::('p'::('y'::('r'::('i'::('g'::('h'::('t'::[]))))))))),
+    ('_'::('s'::('i'::('t'::('e'::('b'::('u'::('i'::('l'::('t'::('i'::('n'::('s'::[])))))))))))))) :: ((('c'::('r'::('e'::('d'::('i'::('t'::('s'::[]))))))),
+    ('_'::('s'::('i'::('t'::('e'::('b'::('u'::('i'::('l'::('t'::('i'::('n'::('s'::[])))))))))))))) :: ((('d'::('e'::('l'::('a'::('t'::('t'::('r'::[]))))))),
+    ('b'::('u'::('i'::('l'::('t'::('i'::('n'::('s'::[]))))))))) :: ((('d'::('i'::('c'::('t'::[])))),
+    ('b'::('u'::('i'::('l'::('t'::('i'::('n'::('s'::[]))))))))) :: ((('d'::('i'::('r'::[]))),
+    ('b'::('u'::('i'::('l'::('t'::('i'::('n'::('s'::[]))))))))) :: ((('d'::('i'::('v'::('m'::('o'::('d'::[])))))),
+    ('b'::('u'::('i'::('l'::('t'::('i'::('n'::('s'::[]))))))))) :: ((('e'::('n'::('u'::('m'::('e'::('r'::('a'::('t'::('e'::[]))))))))),
+    ('b'::('u'::('i'::('l'::('t'::('i'::('n'::('s'::[]))))))))) :: ((('e'::('v'::('a'::('l'::[])))),
+    ('b'::('u'::('i'::('l'::('t'::('i'::('n'::('s'::[]))))))))) :: ((('e'::('x'::('e'::('c'::[])))),
+    ('b'::('u'::('i'::('l'::('t'::('i'::('n'::('s'::[]))))))))) :: ((('e'::('x'::('i'::('t'::[])))),
+    ('_'::('s'::('i'::('t'::('e'::('b'::('u'::('i'::('l'::('t'::('i'::('n'::('s'::[])))))))))))))) :: ((('f'::('i'::('l'::('t'::('e'::('r'::[])))))),
+    ('b'::('u'::('i'::('l'::('t'::('i'::('n'::('s'::[]))))))))) :: ((('f'::('l'::('o'::('a'::('t'::[]))))),
+    ('b'::('u'::('i'::('l'::('t'::('i'::('n'::('s'::[]))))))))) :: ((('f'::('o'::('r'::('m'::('a'::('t'::[])))))),
+    ('b'::('u'::('i'::('l'::('t'::('i'::('n'::('s'::[]))))))))) :: ((('f'::('r'::('o'::('z'::('e'::('n'::('s'::('e'::('t'::[]))))))))),
+    ('b'::('u'::('i'::('l'::('t'::('i'::('n'::('s'::[]))))))))) :: ((('g'::('e'::('t'::('a'::('t'::('t'::('r'::[]))))))),
+    ('b'::('u'::('i'::('l'::('t'::('i'::('n'::('s'::[]))))))))) :: ((('g'::('l'::('o'::('b'::('a'::('l'::('s'::[]))))))),
+    ('b'::('u'::('i'::('l'::('t'::('i'::('n'::('s'::[]))))))))) :: ((('h'::('a'::('s'::('a'::('t'::('t'::('r'::[]))))))),
+    ('b'::('u'::('i'::('l'::('t'::('i'::('n'::('s'::[]))))))))) :: ((('h'::('a'::('s'::('h'::[])))),
+    ('b'::('u'::('i'::('l'::('t'::('i'::('n'::('s'::[]))))))))) :: ((('h'::('e'::('l'::('p'::[])))),
+    ('_'::('s'::('i'::('t'::('e'::('b'::('u'::('i'::('l'::('t'::('i'::('n'::('s'::[])))))))))))))) :: ((('h'::('e'::('x'::[]))),
+    ('b'::('u'::('i'::('l'::('t'::('i'::('n'::('s'::[]))))))))) :: ((('i'::('d'::[])),
+    ('b'::('u'::('i'::('l'::('t'::('i'::('n'::('s'::[]))))))))) :: ((('i'::('n'::('p'::('u'::('t'::[]))))),
+    ('b'::('u'::('i'::('l'::('t'::('i'::('n'::('s'::[]))))))))) :: ((('i'::('n'::('t'::[]))),
+    ('b'::('u'::('i'::('l'::('t'::('i'::('n'::('s'::[]))))))))) :: ((('i'::('s'::('i'::('n'::('s'::('t'::('a'::('n'::('c'::('e'::[])))))))))),
+    ('b'::('u'::('i'::('l'::('t'::('i'::('n'::('s'::[]))))))))) :: ((('i'::('s'::('s'::('u'::('b'::('c'::('l'::('a'::('s'::('s'::[])))))))))),
+    ('b'::('u'::('i'::('l'::('t'::('i'::('n'::('s'::[]))))))))) :: ((('i'::('t'::('e'::('r'::[])))),
+    ('b'::('u'::('i'::('l'::('t'::('i'::('n'::('s'::[]))))))))) :: ((('l'::('e'::('n'::[]))),
+    ('b'::('u'::('i'::('l'::('t'::('i'::('n'::('s'::[]))))))))) :: ((('l'::('i'::('c'::('e'::('n'::('s'::('e'::[]))))))),
+    ('_'::('s'::('i'::('t'::('e'::('b'::('u'::('i'::('l'::('t'::('i'::('n'::('s'::[])))))))))))))) :: ((('l'::('i'::('s'::('t'::[])))),
+    ('b'::('u'::('i'::('l'::('t'::('i'::('n'::('s'::[]))))))))) :: ((('l'::('o'::('c'::('a'::('l'::('s'::[])))))),
+    ('b'::('u'::('i'::('l'::('t'::('i'::('n'::('s'::[]))))))))) :: ((('m'::('a'::('p'::[]))),
+    ('b'::('u'::('i'::('l'::('t'::('i'::('n'::('s'::[]))))))))) :: ((('m'::('a'::('x'::[]))),
+    ('b'::('u'::('i'::('l'::('t'::('i'::('n'::('s'::[]))))))))) :: ((('m'::('e'::('m'::('o'::('r'::('y'::('v'::('i'::('e'::('w'::[])))))))))),
+    ('b'::('u'::('i'::('l'::('t'::('i'::('n'::('s'::[]))))))))) :: ((('m'::('i'::('n'::[]))),
+    ('b'::('u'::('i'::('l'::('t'::('i'::('n'::('s'::[]))))))))) :: ((('n'::('e'::('x'::('t'::[])))),
+    ('b'::('u'::('i'::('l'::('t'::('i'::('n'::('s'::[]))))))))) :: ((('o'::('b'::('j'::('e'::('c'::('t'::[])))))),
+    ('b'::('u'::('i'::('l'::('t'::('i'::('n'::('s'::[]))))))))) :: ((('o'::('c'::('t'::[]))),
+    ('b'::('u'::('i'::('l'::('t'::('i'::('n'::('s'::[]))))))))) :: ((('o'::('p'::('e'::('n'::[])))),
+    ('_'::('i'::('o'::[])))) :: ((('o'::('r'::('d'::[]))),
+    ('b'::('u'::('i'::('l'::('t'::('i'::('n'::('s'::[]))))))))) :: ((('p'::('o'::('w'::[]))),
+    ('b'::('u'::('i'::('l'::('t'::('i'::('n'::('s'::[]))))))))) :: ((('p'::('r'::('i'::('n'::('t'::[]))))),
+    ('b'::('u'::('i'::('l'::('t'::('i'::('n'::('s'::[]))))))))) :: ((('p'::('r'::('o'::('p'::('e'::('r'::('t'::('y'::[])))))))),
+    ('b'::('u'::('i'::('l'::('t'::('i'::('n'::('s'::[]))))))))) :: ((('q'::('u'::('i'::('t'::[])))),
+    ('_'::('s'::('i'::('t'::('e'::('b'::('u'::('i'::('l'::('t'::('i'::('n'::('s'::[])))))))))))))) :: ((('r'::('a'::('n'::('g'::('e'::[]))))),
+    ('b'::('u'::('i'::('l'::('t'::('i'::('n'::('s'::[]))))))))) :: ((('r'::('e'::('p'::('r'::[])))),
+    ('b'::('u'::('i'::('l'::('t'::('i'::('n'::('s'::[]))))))))) :: ((('r'::('e'::('v'::('e'::('r'::('s'::('e'::('d'::[])))))))),
+    ('b'::('u'::('i'::('l'::('t'::('i'::('n'::('s'::[]))))))))) :: ((('r'::('o'::('u'::('n'::('d'::[]))))),
+    ('b'::('u'::('i'::('l'::('t'::('i'::('n'::('s'::[]))))))))) :: ((('s'::('e'::('t'::[]))),
+    ('b'::('u'::('i'::('l'::('t'::('i'::('n'::('s'::[]))))))))) :: ((('s'::('e'::('t'::('a'::('t'::('t'::('r'::[]))))))),
+    ('b'::('u'::('i'::('l'::('t'::('i'::('n'::('s'::[]))))))))) :: ((('s'::('l'::('i'::('c'::('e'::[]))))),
+    ('b'::('u'::('i'::('l'::('t'::('i'::('n'::('s'::[]))))))))) :: ((('s'::('o'::('r'::('t'::('e'::('d'::[])))))),
+    ('b'::('u'::('i'::('l'::('t'::('i'::('n'::('s'::[]))))))))) :: ((('s'::('t'::('a'::('t'::('i'::('c'::('m'::('e'::('t'::('h'::('o'::('d'::[])))))))))))),
+    ('b'::('u'::('i'::('l'::('t'::('i'::('n'::('s'::[]))))))))) :: ((('s'::('t'::('r'::[]))),
+    ('b'::('u'::('i'::('l'::('t'::('i'::('n'::('s'::[]))))))))) :: ((('s'::('u'::('m'::[]))),
+    ('b'::('u'::('i'::('l'::('t'::('i'::('n'::('s'::[]))))))))) :: ((('s'::('u'::('p'::('e'::('r'::[]))))),
+    ('b'::('u'::('i'::('l'::('t'::('i'::('n'::('s'::[]))))))))) :: ((('t'::('u'::('p'::('l'::('e'::[]))))),
+    ('b'::('u'::('i'::('l'::('t'::('i'::('n'::('s'::[]))))))))) :: ((('t'::('y'::('p'::('e'::[])))),
+    ('b'::('u'::('i'::('l'::('t'::('i'::('n'::('s'::[]))))))))) :: ((('v'::('a'::('r'::('s'::[])))),
+    ('b'::('u'::('i'::('l'::('t'::('i'::('n'::('s'::[]))))))))) :: ((('z'::('i'::('p'::[]))),
+    ('b'::('u'::('i'::('l'::('t'::('i'::('n'::('s'::[]))))))))) :: []))))))))))))))))))))))))))))))))))))))))))))))))))))))))))))))))))))))))))))))))))))))))))))))))))))))))))))))))))))))))))))))))))))))))))))))))))))))))))))
 
 (** val documented : char list list **)
 
 let documented =
-  []
+  ('s'::('i'::('n'::[]))) :: (('c'::('o'::('s'::[]))) :: (('t'::('a'::('n'::[]))) :: (('a'::('c'::('o'::('s'::[])))) :: (('a'::('s'::('i'::('n'::[])))) :: (('a'::('t'::('a'::('n'::[])))) :: (('a'::('t'::('a'::('n'::('2'::[]))))) :: (('s'::('i'::('n'::('h'::[])))) :: (('c'::('o'::('s'::('h'::[])))) :: (('t'::('a'::('n'::('h'::[])))) :: (('a'::('s'::('i'::('n'::('h'::[]))))) :: (('a'::('c'::('o'::('s'::('h'::[]))))) :: (('a'::('t'::('a'::('n'::('h'::[]))))) :: (('e'::('x'::('p'::[]))) :: (('l'::('d'::('e'::('x'::('p'::[]))))) :: (('l'::('o'::('g'::[]))) :: (('l'::('n'::[])) :: (('l'::('o'::('g'::('1'::('0'::[]))))) :: (('e'::('x'::('p'::('2'::[])))) :: (('e'::('x'::('p'::('m'::('1'::[]))))) :: (('i'::('l'::('o'::('g'::('b'::[]))))) :: (('l'::('o'::('g'::('1'::('p'::[]))))) :: (('l'::('o'::('g'::('2'::[])))) :: (('s'::('c'::('a'::('l'::('b'::('n'::[])))))) :: (('s'::('c'::('a'::('l'::('b'::('l'::('n'::[]))))))) :: (('p'::('o'::('w'::[]))) :: (('s'::('q'::('r'::('t'::[])))) :: (('c'::('b'::('r'::('t'::[])))) :: (('h'::('y'::('p'::('o'::('t'::[]))))) :: (('e'::('r'::('f'::[]))) :: (('e'::('r'::('f'::('c'::[])))) :: (('t'::('g'::('a'::('m'::('m'::('a'::[])))))) :: (('l'::('g'::('a'::('m'::('m'::('a'::[])))))) :: (('c'::('e'::('i'::('l'::[])))) :: (('f'::('l'::('o'::('o'::('r'::[]))))) :: (('f'::('m'::('o'::('d'::[])))) :: (('t'::('r'::('u'::('n'::('c'::[]))))) :: (('r'::('o'::('u'::('n'::('d'::[]))))) :: (('r'::('i'::('n'::('t'::[])))) :: (('n'::('e'::('a'::('r'::('b'::('y'::('i'::('n'::('t'::[]))))))))) :: (('r'::('e'::('m'::('a'::('i'::('n'::('d'::('e'::('r'::[]))))))))) :: (('r'::('e'::('m'::('q'::('u'::('o'::[])))))) :: (('c'::('o'::('p'::('y'::('s'::('i'::('g'::('n'::[])))))))) :: (('n'::('a'::('n'::[]))) :: (('n'::('e'::('x'::('t'::('a'::('f'::('t'::('e'::('r'::[]))))))))) :: (('n'::('e'::('x'::('t'::('t'::('o'::('w'::('a'::('r'::('d'::[])))))))))) :: (('f'::('d'::('i'::('m'::[])))) :: (('f'::('m'::('a'::('x'::[])))) :: (('f'::('m'::('i'::('n'::[])))) :: (('f'::('a'::('b'::('s'::[])))) :: (('a'::('b'::('s'::[]))) :: (('f'::('m'::('a'::[]))) :: [])))))))))))))))))))))))))))))))))))))))))))))))))))
 
 (** val math_env : menv **)
 
 let math_env =
   { e_rows = math_rows; e_module = module_names; e_builtins = builtin_names }
+
+(** val in_range : nat -> nat -> char -> bool **)
+
+let in_range lo hi c =
+  let n0 = nat_of_ascii c in (&&) (Nat.leb lo n0) (Nat.leb n0 hi)
+
+(** val is_dig : char -> bool **)
+
+let is_dig c =
+  in_range (S (S (S (S (S (S (S (S (S (S (S (S (S (S (S (S (S (S (S (S (S (S
+    (S (S (S (S (S (S (S (S (S (S (S (S (S (S (S (S (S (S (S (S (S (S (S (S
+    (S (S O)))))))))))))))))))))))))))))))))))))))))))))))) (S (S (S (S (S (S
+    (S (S (S (S (S (S (S (S (S (S (S (S (S (S (S (S (S (S (S (S (S (S (S (S
+    (S (S (S (S (S (S (S (S (S (S (S (S (S (S (S (S (S (S (S (S (S (S (S (S
+    (S (S (S O))))))))))))))))))))))))))))))))))))))))))))))))))))))))) c
+
+(** val is_oct : char -> bool **)
+
+let is_oct c =
+  in_range (S (S (S (S (S (S (S (S (S (S (S (S (S (S (S (S (S (S (S (S (S (S
+    (S (S (S (S (S (S (S (S (S (S (S (S (S (S (S (S (S (S (S (S (S (S (S (S
+    (S (S O)))))))))))))))))))))))))))))))))))))))))))))))) (S (S (S (S (S (S
+    (S (S (S (S (S (S (S (S (S (S (S (S (S (S (S (S (S (S (S (S (S (S (S (S
+    (S (S (S (S (S (S (S (S (S (S (S (S (S (S (S (S (S (S (S (S (S (S (S (S
+    (S O))))))))))))))))))))))))))))))))))))))))))))))))))))))) c
+
+(** val is_letter : char -> bool **)
+
+let is_letter c =
+  (||)
+    (in_range (S (S (S (S (S (S (S (S (S (S (S (S (S (S (S (S (S (S (S (S (S
+      (S (S (S (S (S (S (S (S (S (S (S (S (S (S (S (S (S (S (S (S (S (S (S (S
+      (S (S (S (S (S (S (S (S (S (S (S (S (S (S (S (S (S (S (S (S
+      O))))))))))))))))))))))))))))))))))))))))))))))))))))))))))))))))) (S
+      (S (S (S (S (S (S (S (S (S (S (S (S (S (S (S (S (S (S (S (S (S (S (S (S
+      (S (S (S (S (S (S (S (S (S (S (S (S (S (S (S (S (S (S (S (S (S (S (S (S
+      (S (S (S (S (S (S (S (S (S (S (S (S (S (S (S (S (S (S (S (S (S (S (S (S
+      (S (S (S (S (S (S (S (S (S (S (S (S (S (S (S (S (S
+      O))))))))))))))))))))))))))))))))))))))))))))))))))))))))))))))))))))))))))))))))))))))))))
+      c)
+    (in_range (S (S (S (S (S (S (S (S (S (S (S (S (S (S (S (S (S (S (S (S (S
+      (S (S (S (S (S (S (S (S (S (S (S (S (S (S (S (S (S (S (S (S (S (S (S (S
+      (S (S (S (S (S (S (S (S (S (S (S (S (S (S (S (S (S (S (S (S (S (S (S (S
+      (S (S (S (S (S (S (S (S (S (S (S (S (S (S (S (S (S (S (S (S (S (S (S (S
+      (S (S (S (S
+      O)))))))))))))))))))))))))))))))))))))))))))))))))))))))))))))))))))))))))))))))))))))))))))))))))
+      (S (S (S (S (S (S (S (S (S (S (S (S (S (S (S (S (S (S (S (S (S (S (S (S
+      (S (S (S (S (S (S (S (S (S (S (S (S (S (S (S (S (S (S (S (S (S (S (S (S
+      (S (S (S (S (S (S (S (S (S (S (S (S (S (S (S (S (S (S (S (S (S (S (S (S
+      (S (S (S (S (S (S (S (S (S (S (S (S (S (S (S (S (S (S (S (S (S (S (S (S
+      (S (S (S (S (S (S (S (S (S (S (S (S (S (S (S (S (S (S (S (S (S (S (S (S
+      (S (S
+      O))))))))))))))))))))))))))))))))))))))))))))))))))))))))))))))))))))))))))))))))))))))))))))))))))))))))))))))))))))))))))
+      c)
+
+(** val is_word : char -> bool **)
+
+let is_word c =
+  (||) ((||) (is_letter c) (is_dig c)) ((=) c '_')
+
+(** val head_word : char list -> bool **)
+
+let head_word = function
+| [] -> false
+| c::_ -> is_word c
+
+(** val drop : nat -> char list -> char list **)
+
+let rec drop n0 s =
+  match n0 with
+  | O -> s
+  | S k -> (match s with
+            | [] -> []
+            | _::r -> drop k r)
+
+(** val last_word : bool -> char list -> bool **)
+
+let rec last_word pw = function
+| [] -> pw
+| c::r -> last_word (is_word c) r
+
+(** val all_chars : (char -> bool) -> char list -> bool **)
+
+let rec all_chars f = function
+| [] -> true
+| c::r -> (&&) (f c) (all_chars f r)
+
+(** val match_at : bool -> char list -> char list -> bool **)
+
+let match_at pw p s =
+  (&&) ((&&) (xorb pw (head_word s)) (prefix p s))
+    (xorb (last_word pw p) (head_word (drop (length0 p) s)))
+
+(** val is_empty : char list -> bool **)
+
+let is_empty = function
+| [] -> true
+| _::_ -> false
+
+(** val first_alt :
+    bool -> (char list * char list) list -> bool -> char list ->
+    (char list * char list) option **)
+
+let rec first_alt adv alts pw s =
+  match alts with
+  | [] -> None
+  | p0 :: r ->
+    let (p, d) = p0 in
+    if (&&) (negb ((&&) adv (is_empty p))) (match_at pw p s)
+    then Some (p, d)
+    else first_alt adv r pw s
+
+(** val sub_go :
+    (char list * char list) list -> bool -> nat -> char list -> char list **)
+
+let rec sub_go alts pw skip s = match s with
+| [] ->
+  (match skip with
+   | O ->
+     (match first_alt false alts pw [] with
+      | Some p -> let (_, d) = p in d
+      | None -> [])
+   | S _ -> [])
+| c::r ->
+  (match skip with
+   | O ->
+     (match first_alt false alts pw s with
+      | Some p ->
+        let (s0, d) = p in
+        (match s0 with
+         | [] ->
+           append d
+             (match first_alt true alts pw s with
+              | Some p0 ->
+                let (s1, d') = p0 in
+                (match s1 with
+                 | [] -> c::(sub_go alts (is_word c) O r)
+                 | _::p' -> append d' (sub_go alts (is_word c) (length0 p') r))
+              | None -> c::(sub_go alts (is_word c) O r))
+         | _::p' -> append d (sub_go alts (is_word c) (length0 p') r))
+      | None -> c::(sub_go alts (is_word c) O r))
+   | S k -> sub_go alts (is_word c) k r)
+
+(** val re_sub_alts :
+    (char list * char list) list -> char list -> char list **)
+
+let re_sub_alts alts s =
+  sub_go alts false O s
+
+type titem =
+| TLit of char
+| TWhole
+
+(** val re_error : err **)
+
+let re_error =
+  ErrOther ('e'::('r'::('r'::('o'::('r'::[])))))
+
+(** val bs : char **)
+
+let bs =
+  '\\'
+
+(** val oct_val : char -> nat **)
+
+let oct_val c =
+  sub (nat_of_ascii c) (S (S (S (S (S (S (S (S (S (S (S (S (S (S (S (S (S (S
+    (S (S (S (S (S (S (S (S (S (S (S (S (S (S (S (S (S (S (S (S (S (S (S (S
+    (S (S (S (S (S (S O))))))))))))))))))))))))))))))))))))))))))))))))
+
+(** val until_gt : char list -> char list option **)
+
+let rec until_gt = function
+| [] -> None
+| c::r ->
+  if (=) c '>' then Some [] else option_map (fun x -> c::x) (until_gt r)
+
+(** val is_identifier : char list -> bool **)
+
+let is_identifier = function
+| [] -> false
+| c::r -> (&&) ((||) (is_letter c) ((=) c '_')) (all_chars is_word r)
+
+(** val is_zero : char -> bool **)
+
+let is_zero c =
+  (=) c '0'
+
+(** val simple_escape : char -> char option **)
+
+let simple_escape e =
+  if (=) e 'a'
+  then Some (ascii_of_nat (S (S (S (S (S (S (S O))))))))
+  else if (=) e 'b'
+       then Some (ascii_of_nat (S (S (S (S (S (S (S (S O)))))))))
+       else if (=) e 'f'
+            then Some
+                   (ascii_of_nat (S (S (S (S (S (S (S (S (S (S (S (S
+                     O)))))))))))))
+            else if (=) e 'n'
+                 then Some
+                        (ascii_of_nat (S (S (S (S (S (S (S (S (S (S
+                          O)))))))))))
+                 else if (=) e 'r'
+                      then Some
+                             (ascii_of_nat (S (S (S (S (S (S (S (S (S (S (S
+                               (S (S O))))))))))))))
+                      else if (=) e 't'
+                           then Some
+                                  (ascii_of_nat (S (S (S (S (S (S (S (S (S
+                                    O))))))))))
+                           else if (=) e 'v'
+                                then Some
+                                       (ascii_of_nat (S (S (S (S (S (S (S (S
+                                         (S (S (S O))))))))))))
+                                else if (=) e bs then Some bs else None
+
+(** val escape_step : char -> char list -> (titem list * nat) result **)
+
+let escape_step e r =
+  if (=) e 'g'
+  then (match r with
+        | [] -> Error re_error
+        | lt::r2 ->
+          if (=) lt '<'
+          then (match until_gt r2 with
+                | Some name ->
+                  if is_empty name
+                  then Error re_error
+                  else if all_chars is_dig name
+                       then if all_chars is_zero name
+                            then OK ((TWhole :: []),
+                                   (add (S (S O)) (length0 name)))
+                            else Error re_error
+                       else if is_identifier name
+                            then Error ErrIndex
+                            else Error re_error
+                | None -> Error re_error)
+          else Error re_error)
+  else if is_zero e
+       then (match r with
+             | [] -> OK (((TLit zero) :: []), O)
+             | d1::r2 ->
+               if is_oct d1
+               then (match r2 with
+                     | [] ->
+                       OK (((TLit (ascii_of_nat (oct_val d1))) :: []), (S O))
+                     | d2::_ ->
+                       if is_oct d2
+                       then OK (((TLit
+                              (ascii_of_nat
+                                (add
+                                  (mul (oct_val d1) (S (S (S (S (S (S (S (S
+                                    O))))))))) (oct_val d2)))) :: []), (S (S
+                              O)))
+                       else OK (((TLit (ascii_of_nat (oct_val d1))) :: []),
+                              (S O)))
+               else OK (((TLit zero) :: []), O))
+       else if is_dig e
+            then (match r with
+                  | [] -> Error re_error
+                  | d1::s ->
+                    (match s with
+                     | [] -> Error re_error
+                     | d2::_ ->
+                       if (&&)
+                            ((&&) ((&&) (is_dig d1) (is_oct e)) (is_oct d1))
+                            (is_oct d2)
+                       then let v =
+                              add
+                                (add
+                                  (mul (oct_val e) (S (S (S (S (S (S (S (S (S
+                                    (S (S (S (S (S (S (S (S (S (S (S (S (S (S
+                                    (S (S (S (S (S (S (S (S (S (S (S (S (S (S
+                                    (S (S (S (S (S (S (S (S (S (S (S (S (S (S
+                                    (S (S (S (S (S (S (S (S (S (S (S (S (S
+                                    O)))))))))))))))))))))))))))))))))))))))))))))))))))))))))))))))))
+                                  (mul (oct_val d1) (S (S (S (S (S (S (S (S
+                                    O)))))))))) (oct_val d2)
+                            in
+                            if Nat.leb v (S (S (S (S (S (S (S (S (S (S (S (S
+                                 (S (S (S (S (S (S (S (S (S (S (S (S (S (S (S
+                                 (S (S (S (S (S (S (S (S (S (S (S (S (S (S (S
+                                 (S (S (S (S (S (S (S (S (S (S (S (S (S (S (S
+                                 (S (S (S (S (S (S (S (S (S (S (S (S (S (S (S
+                                 (S (S (S (S (S (S (S (S (S (S (S (S (S (S (S
+                                 (S (S (S (S (S (S (S (S (S (S (S (S (S (S (S
+                                 (S (S (S (S (S (S (S (S (S (S (S (S (S (S (S
+                                 (S (S (S (S (S (S (S (S (S (S (S (S (S (S (S
+                                 (S (S (S (S (S (S (S (S (S (S (S (S (S (S (S
+                                 (S (S (S (S (S (S (S (S (S (S (S (S (S (S (S
+                                 (S (S (S (S (S (S (S (S (S (S (S (S (S (S (S
+                                 (S (S (S (S (S (S (S (S (S (S (S (S (S (S (S
+                                 (S (S (S (S (S (S (S (S (S (S (S (S (S (S (S
+                                 (S (S (S (S (S (S (S (S (S (S (S (S (S (S (S
+                                 (S (S (S (S (S (S (S (S (S (S (S (S (S (S (S
+                                 (S (S (S (S (S (S (S (S (S (S (S (S (S (S (S
+                                 (S (S (S
+                                 O)))))))))))))))))))))))))))))))))))))))))))))))))))))))))))))))))))))))))))))))))))))))))))))))))))))))))))))))))))))))))))))))))))))))))))))))))))))))))))))))))))))))))))))))))))))))))))))))))))))))))))))))))))))))))))))))))))))))))))))))))))))))))))))))
+                            then OK (((TLit (ascii_of_nat v)) :: []), (S (S
+                                   O)))
+                            else Error re_error
+                       else Error re_error))
+            else (match simple_escape e with
+                  | Some c -> OK (((TLit c) :: []), O)
+                  | None ->
+                    if is_letter e
+                    then Error re_error
+                    else OK (((TLit bs) :: ((TLit e) :: [])), O))
+
+(** val tparse : nat -> char list -> titem list result **)
+
+let rec tparse skip = function
+| [] -> OK []
+| c::r ->
+  (match skip with
+   | O ->
+     if (=) c bs
+     then (match r with
+           | [] -> Error re_error
+           | e::r' ->
+             (match escape_step e r' with
+              | OK a ->
+                let (items, n0) = a in
+                (match tparse (S n0) r with
+                 | OK rest -> OK (app items rest)
+                 | Error x -> Error x)
+              | Error x -> Error x))
+     else (match tparse O r with
+           | OK rest -> OK ((TLit c) :: rest)
+           | Error x -> Error x)
+   | S k -> tparse k r)
+
+(** val expand : titem list -> char list -> char list **)
+
+let rec expand items whole =
+  match items with
+  | [] -> []
+  | t :: r ->
+    (match t with
+     | TLit c -> c::(expand r whole)
+     | TWhole -> append whole (expand r whole))
+
+(** val re_sub_template :
+    char list -> char list -> char list -> char list result **)
+
+let re_sub_template p repl s =
+  match tparse O repl with
+  | OK items -> OK (re_sub_alts ((p, (expand items p)) :: []) s)
+  | Error x -> Error x
+
+(** val has_key0 : char list -> (char list * char list) list -> bool **)
+
+let rec has_key0 k = function
+| [] -> false
+| p :: r -> let (k', _) = p in if eqb0 k k' then true else has_key0 k r
+
+(** val build_lookup :
+    (char list * char list) list -> (char list * char list) list ->
+    (char list * char list) list **)
+
+let rec build_lookup rl acc =
+  match rl with
+  | [] -> acc
+  | p :: r ->
+    let (src, dest) = p in
+    if has_key0 src acc
+    then build_lookup r acc
+    else build_lookup r (app acc ((src, dest) :: []))
+
+(** val impl_subst :
+    (char list * char list) list -> char list -> char list **)
+
+let impl_subst rl line =
+  match build_lookup rl [] with
+  | [] -> line
+  | p :: l -> re_sub_alts (p :: l) line
+
+(** val seq_subst :
+    (char list * char list) list -> char list -> char list result **)
+
+let rec seq_subst rl line =
+  match rl with
+  | [] -> OK line
+  | p :: r ->
+    let (src, dest) = p in
+    (match re_sub_template src dest line with
+     | OK l -> seq_subst r l
+     | Error x -> Error x)
+
+(** val tokenise : char list -> char list list **)
+
+let rec tokenise = function
+| [] -> []
+| c::r ->
+  (match tokenise r with
+   | [] -> (c::[]) :: []
+   | t :: ts ->
+     if eqb (is_word c) (head_word t)
+     then (c::t) :: ts
+     else (c::[]) :: (t :: ts))
+
+(** val assoc0 :
+    char list -> (char list * char list) list -> char list option **)
+
+let rec assoc0 k = function
+| [] -> None
+| p :: r -> let (k', v) = p in if eqb0 k k' then Some v else assoc0 k r
+
+(** val map_token : (char list * char list) list -> char list -> char list **)
+
+let map_token m t =
+  match assoc0 t m with
+  | Some d -> d
+  | None -> t
+
+(** val spec_subst :
+    (char list * char list) list -> char list -> char list **)
+
+let spec_subst m line =
+  concat_str (map (map_token m) (tokenise line))
+
+type ctype = { ct_name : char list; ct_pdepth : nat; ct_const : bool }
+
+(** val stars : nat -> char list **)
+
+let rec stars = function
+| O -> []
+| S k -> '*'::(stars k)
+
+(** val ctype_str : ctype -> char list **)
+
+let ctype_str t =
+  append
+    (if t.ct_const then 'c'::('o'::('n'::('s'::('t'::(' '::[]))))) else [])
+    (append t.ct_name (stars t.ct_pdepth))
+
+(** val result_type_str : ctype -> bool -> char list **)
+
+let result_type_str t = function
+| true ->
+  append
+    ('s'::('t'::('d'::(':'::(':'::('v'::('e'::('c'::('t'::('o'::('r'::('<'::[]))))))))))))
+    (append (ctype_str t) ('>'::[]))
+| false -> ctype_str t
+
+type cpp_spec = { sp_name : char list; sp_includes : char list list;
+                  sp_args : char list list; sp_code : char list list;
+                  sp_result : char list; sp_rtype : ctype; sp_is_coll : 
+                  bool; sp_method_obj : char list option }
+
+type cpp_value = { cv_includes : char list list; cv_libs : char list list;
+                   cv_args : char list list; cv_code : char list list;
+                   cv_result : char list; cv_rname : char list;
+                   cv_rtype : char list;
+                   cv_instance : (char list * char list) option;
+                   cv_fields : ((char list * char list) * char list) list }
+
+type call_style =
+| StyleFunc
+| StyleMethod of char list
+
+(** val build_value : cpp_spec -> call_style -> nat -> cpp_value result **)
+
+let build_value sp style nargs =
+  if negb (Nat.eqb nargs (length sp.sp_args))
+  then Error ErrValue
+  else let mk = fun inst -> { cv_includes = sp.sp_includes; cv_libs = [];
+         cv_args = sp.sp_args; cv_code = sp.sp_code; cv_result =
+         sp.sp_result; cv_rname = sp.sp_name; cv_rtype =
+         (result_type_str sp.sp_rtype sp.sp_is_coll); cv_instance = inst;
+         cv_fields = [] }
+       in
+       (match style with
+        | StyleFunc ->
+          (match sp.sp_method_obj with
+           | Some _ -> Error ErrValue
+           | None -> OK (mk None))
+        | StyleMethod r ->
+          (match sp.sp_method_obj with
+           | Some mo -> OK (mk (Some (mo, r)))
+           | None -> Error ErrValue))
+
+(** val unique_name : char list -> nat -> char list **)
+
+let unique_name base counter =
+  append base (dec_nat counter)
+
+(** val add_unique : char list list -> char list list -> char list list **)
+
+let rec add_unique xs have =
+  match xs with
+  | [] -> have
+  | x :: r ->
+    add_unique r (if mem_str x have then have else app have (x :: []))
+
+(** val ends_semicolon : char list -> bool **)
+
+let rec ends_semicolon = function
+| [] -> false
+| c::r -> (match r with
+           | [] -> (=) c ';'
+           | _::_ -> ends_semicolon r)
+
+(** val arbitrary_statement : char list -> char list **)
+
+let arbitrary_statement l =
+  if ends_semicolon l then l else append l (';'::[])
+
+(** val set_var_line : char list -> char list -> char list **)
+
+let set_var_line target value =
+  append target (append (' '::('='::(' '::[]))) (append value (';'::[])))
+
+type emitted = { em_decl : (char list * char list);
+                 em_includes : char list list; em_libs : char list list;
+                 em_block : char list list;
+                 em_class_vars : (char list * char list) list;
+                 em_book : char list list; em_result : char list;
+                 em_counter : nat }
+
+(** val map_result : ('a1 -> 'a2 result) -> 'a1 list -> 'a2 list result **)
+
+let rec map_result f = function
+| [] -> OK []
+| x :: r ->
+  (match f x with
+   | OK y ->
+     (match map_result f r with
+      | OK ys -> OK (y :: ys)
+      | Error e -> Error e)
+   | Error e -> Error e)
+
+(** val process_node_with :
+    ((char list * char list) list -> char list -> char list result) ->
+    cpp_value -> char list -> char list list -> nat -> char list list ->
+    char list list -> emitted result **)
+
+let process_node_with subst cv recv arg_reps counter incs libs =
+  let rvar = unique_name cv.cv_rname counter in
+  let repl_list =
+    app
+      (match cv.cv_instance with
+       | Some p -> let (mo, _) = p in (mo, recv) :: []
+       | None -> []) (combine cv.cv_args arg_reps)
+  in
+  (match map_result (subst repl_list) cv.cv_code with
+   | OK lines ->
+     (match map_result (fun f -> subst repl_list (snd f)) cv.cv_fields with
+      | OK inits ->
+        OK { em_decl = (cv.cv_rtype, rvar); em_includes =
+          (add_unique cv.cv_includes incs); em_libs =
+          (add_unique cv.cv_libs libs); em_block =
+          (app (map arbitrary_statement lines)
+            ((set_var_line rvar cv.cv_result) :: [])); em_class_vars =
+          (map fst cv.cv_fields); em_book =
+          (map (fun p -> set_var_line (snd (fst (fst p))) (snd p))
+            (combine cv.cv_fields inits)); em_result = rvar; em_counter = (S
+          counter) }
+      | Error e -> Error e)
+   | Error e -> Error e)
+
+(** val process_node :
+    cpp_value -> char list -> char list list -> nat -> char list list ->
+    char list list -> emitted result **)
+
+let process_node =
+  process_node_with (fun rl l -> OK (impl_subst rl l))
+
+(** val process_node_seq :
+    cpp_value -> char list -> char list list -> nat -> char list list ->
+    char list list -> emitted result **)
+
+let process_node_seq =
+  process_node_with seq_subst
+
+(** val render_call : emitted -> char list list **)
+
+let render_call e =
+  app
+    (('{'::[]) :: ((append (fst e.em_decl)
+                     (append (' '::[]) (append (snd e.em_decl) (';'::[])))) :: (('{'::[]) :: [])))
+    (app e.em_block (('}'::[]) :: (('}'::[]) :: [])))
+
+type qexpr =
+| QName of char list
+| QLeaf of char list
+| QAttr of qexpr * char list
+| QCall of qexpr * qexpr list
+| QCpp of cpp_value * qexpr list
+| QNode of char list * qexpr list
+
+(** val find_spec :
+    char list -> (char list * cpp_spec) list -> cpp_spec option **)
+
+let rec find_spec name = function
+| [] -> None
+| p :: r ->
+  let (n0, sp) = p in if eqb0 name n0 then Some sp else find_spec name r
+
+(** val finder : (char list * cpp_spec) list -> qexpr -> qexpr result **)
+
+let rec finder tbl e =
+  let go =
+    let rec go = function
+    | [] -> OK []
+    | x :: r ->
+      (match finder tbl x with
+       | OK x' ->
+         (match go r with
+          | OK r' -> OK (x' :: r')
+          | Error err0 -> Error err0)
+       | Error err0 -> Error err0)
+    in go
+  in
+  (match e with
+   | QAttr (v, a) ->
+     (match finder tbl v with
+      | OK v' -> OK (QAttr (v', a))
+      | Error err0 -> Error err0)
+   | QCall (f, args) ->
+     (match finder tbl f with
+      | OK f' ->
+        (match go args with
+         | OK args' ->
+           let try_call = fun name style ->
+             match find_spec name tbl with
+             | Some sp ->
+               (match build_value sp style (length args') with
+                | OK cv -> OK (QCpp (cv, args'))
+                | Error err0 -> Error err0)
+             | None -> OK (QCall (f', args'))
+           in
+           (match f' with
+            | QName id -> try_call id StyleFunc
+            | QAttr (value, attr) ->
+              (match value with
+               | QName r -> try_call attr (StyleMethod r)
+               | _ -> OK (QCall (f', args')))
+            | _ -> OK (QCall (f', args')))
+         | Error err0 -> Error err0)
+      | Error err0 -> Error err0)
+   | QCpp (cv, args) ->
+     (match go args with
+      | OK args' -> OK (QCpp (cv, args'))
+      | Error err0 -> Error err0)
+   | QNode (t, ch) ->
+     (match go ch with
+      | OK ch' -> OK (QNode (t, ch'))
+      | Error err0 -> Error err0)
+   | x -> OK x)
+
+(** val d_pair : sexp -> (char list * char list) option **)
+
+let d_pair = function
+| SAtom _ -> None
+| SList l ->
+  (match l with
+   | [] -> None
+   | s0 :: l0 ->
+     (match s0 with
+      | SAtom a ->
+        (match l0 with
+         | [] -> None
+         | s1 :: l1 ->
+           (match s1 with
+            | SAtom b -> (match l1 with
+                          | [] -> Some (a, b)
+                          | _ :: _ -> None)
+            | SList _ -> None))
+      | SList _ -> None))
+
+(** val d_pairs : sexp -> (char list * char list) list option **)
+
+let d_pairs = function
+| SAtom _ -> None
+| SList l -> d_list d_pair l
+
+(** val s_pair : (char list * char list) -> sexp **)
+
+let s_pair p =
+  SList ((SAtom (fst p)) :: ((SAtom (snd p)) :: []))
+
+(** val run_resub : sexp -> sexp **)
+
+let run_resub = function
+| SAtom _ -> bad_input
+| SList l ->
+  (match l with
+   | [] -> bad_input
+   | s0 :: l0 ->
+     (match s0 with
+      | SAtom p ->
+        (match l0 with
+         | [] -> bad_input
+         | s1 :: l1 ->
+           (match s1 with
+            | SAtom repl ->
+              (match l1 with
+               | [] -> bad_input
+               | s2 :: l2 ->
+                 (match s2 with
+                  | SAtom subj ->
+                    (match l2 with
+                     | [] -> s_result s_str (re_sub_template p repl subj)
+                     | _ :: _ -> bad_input)
+                  | SList _ -> bad_input))
+            | SList _ -> bad_input))
+      | SList _ -> bad_input))
+
+(** val run_subst : sexp -> sexp **)
+
+let run_subst = function
+| SAtom _ -> bad_input
+| SList l ->
+  (match l with
+   | [] -> bad_input
+   | rl :: l0 ->
+     (match l0 with
+      | [] -> bad_input
+      | s0 :: l1 ->
+        (match s0 with
+         | SAtom line ->
+           (match l1 with
+            | [] ->
+              (match d_pairs rl with
+               | Some l2 ->
+                 s_tag ('o'::('k'::[])) ((SAtom (impl_subst l2 line)) :: [])
+               | None -> bad_input)
+            | _ :: _ -> bad_input)
+         | SList _ -> bad_input)))
+
+(** val run_seq : sexp -> sexp **)
+
+let run_seq = function
+| SAtom _ -> bad_input
+| SList l ->
+  (match l with
+   | [] -> bad_input
+   | rl :: l0 ->
+     (match l0 with
+      | [] -> bad_input
+      | s0 :: l1 ->
+        (match s0 with
+         | SAtom line ->
+           (match l1 with
+            | [] ->
+              (match d_pairs rl with
+               | Some l2 -> s_result s_str (seq_subst l2 line)
+               | None -> bad_input)
+            | _ :: _ -> bad_input)
+         | SList _ -> bad_input)))
+
+(** val run_spec : sexp -> sexp **)
+
+let run_spec = function
+| SAtom _ -> bad_input
+| SList l ->
+  (match l with
+   | [] -> bad_input
+   | rl :: l0 ->
+     (match l0 with
+      | [] -> bad_input
+      | s0 :: l1 ->
+        (match s0 with
+         | SAtom line ->
+           (match l1 with
+            | [] ->
+              (match d_pairs rl with
+               | Some l2 ->
+                 s_tag ('o'::('k'::[])) ((SAtom (spec_subst l2 line)) :: [])
+               | None -> bad_input)
+            | _ :: _ -> bad_input)
+         | SList _ -> bad_input)))
+
+(** val run_tokens : sexp -> sexp **)
+
+let run_tokens = function
+| SAtom l -> s_strs (tokenise l)
+| SList _ -> bad_input
+
+(** val d_opt_str : sexp -> char list option option **)
+
+let d_opt_str = function
+| SAtom _ -> None
+| SList l ->
+  (match l with
+   | [] -> Some None
+   | s0 :: l0 ->
+     (match s0 with
+      | SAtom a -> (match l0 with
+                    | [] -> Some (Some a)
+                    | _ :: _ -> None)
+      | SList _ -> None))
+
+(** val d_ctype : sexp -> ctype option **)
+
+let d_ctype = function
+| SAtom _ -> None
+| SList l ->
+  (match l with
+   | [] -> None
+   | s0 :: l0 ->
+     (match s0 with
+      | SAtom n0 ->
+        (match l0 with
+         | [] -> None
+         | pd :: l1 ->
+           (match l1 with
+            | [] -> None
+            | c :: l2 ->
+              (match l2 with
+               | [] ->
+                 (match d_nat pd with
+                  | Some pd' ->
+                    (match d_bool c with
+                     | Some c' ->
+                       Some { ct_name = n0; ct_pdepth = pd'; ct_const = c' }
+                     | None -> None)
+                  | None -> None)
+               | _ :: _ -> None)))
+      | SList _ -> None))
+
+(** val d_spec : sexp -> cpp_spec option **)
+
+let d_spec = function
+| SAtom _ -> None
+| SList l ->
+  (match l with
+   | [] -> None
+   | s0 :: l0 ->
+     (match s0 with
+      | SAtom n0 ->
+        (match l0 with
+         | [] -> None
+         | incs :: l1 ->
+           (match l1 with
+            | [] -> None
+            | args :: l2 ->
+              (match l2 with
+               | [] -> None
+               | code :: l3 ->
+                 (match l3 with
+                  | [] -> None
+                  | s1 :: l4 ->
+                    (match s1 with
+                     | SAtom res ->
+                       (match l4 with
+                        | [] -> None
+                        | ty :: l5 ->
+                          (match l5 with
+                           | [] -> None
+                           | coll :: l6 ->
+                             (match l6 with
+                              | [] -> None
+                              | mo :: l7 ->
+                                (match l7 with
+                                 | [] ->
+                                   (match d_strs incs with
+                                    | Some i ->
+                                      (match d_strs args with
+                                       | Some a ->
+                                         (match d_strs code with
+                                          | Some c ->
+                                            (match d_ctype ty with
+                                             | Some t ->
+                                               (match d_bool coll with
+                                                | Some k ->
+                                                  (match d_opt_str mo with
+                                                   | Some m ->
+                                                     Some { sp_name = n0;
+                                                       sp_includes = i;
+                                                       sp_args = a; sp_code =
+                                                       c; sp_result = res;
+                                                       sp_rtype = t;
+                                                       sp_is_coll = k;
+                                                       sp_method_obj = m }
+                                                   | None -> None)
+                                                | None -> None)
+                                             | None -> None)
+                                          | None -> None)
+                                       | None -> None)
+                                    | None -> None)
+                                 | _ :: _ -> None))))
+                     | SList _ -> None)))))
+      | SList _ -> None))
+
+(** val d_style : sexp -> call_style option **)
+
+let d_style = function
+| SAtom _ -> None
+| SList l ->
+  (match l with
+   | [] -> None
+   | s0 :: l0 ->
+     (match s0 with
+      | SAtom s1 ->
+        (match s1 with
+         | [] -> None
+         | a::s2 ->
+           (* If this appears, you're using Ascii internals. Please don't *)
+ (fun f c ->
+  let n = Char.code c in
+  let h i = (n land (1 lsl i)) <> 0 in
+  f (h 0) (h 1) (h 2) (h 3) (h 4) (h 5) (h 6) (h 7))
+             (fun b b0 b1 b2 b3 b4 b5 b6 ->
+             if b
+             then if b0
+                  then None
+                  else if b1
+                       then if b2
+                            then if b3
+                                 then None
+                                 else if b4
+                                      then if b5
+                                           then if b6
+                                                then None
+                                                else (match s2 with
+                                                      | [] -> None
+                                                      | a0::s3 ->
+                                                        (* If this appears, you're using Ascii internals. Please don't *)
+ (fun f c ->
+  let n = Char.code c in
+  let h i = (n land (1 lsl i)) <> 0 in
+  f (h 0) (h 1) (h 2) (h 3) (h 4) (h 5) (h 6) (h 7))
+                                                          (fun b7 b8 b9 b10 b11 b12 b13 b14 ->
+                                                          if b7
+                                                          then if b8
+                                                               then None
+                                                               else if b9
+                                                                    then 
+                                                                    if b10
+                                                                    then None
+                                                                    else 
+                                                                    if b11
+                                                                    then None
+                                                                    else 
+                                                                    if b12
+                                                                    then 
+                                                                    if b13
+                                                                    then 
+                                                                    if b14
+                                                                    then None
+                                                                    else 
+                                                                    (match s3 with
+                                                                    | [] ->
+                                                                    None
+                                                                    | a1::s4 ->
+                                                                    (* If this appears, you're using Ascii internals. Please don't *)
+ (fun f c ->
+  let n = Char.code c in
+  let h i = (n land (1 lsl i)) <> 0 in
+  f (h 0) (h 1) (h 2) (h 3) (h 4) (h 5) (h 6) (h 7))
+                                                                    (fun b15 b16 b17 b18 b19 b20 b21 b22 ->
+                                                                    if b15
+                                                                    then None
+                                                                    else 
+                                                                    if b16
+                                                                    then None
+                                                                    else 
+                                                                    if b17
+                                                                    then 
+                                                                    if b18
+                                                                    then None
+                                                                    else 
+                                                                    if b19
+                                                                    then 
+                                                                    if b20
+                                                                    then 
+                                                                    if b21
+                                                                    then 
+                                                                    if b22
+                                                                    then None
+                                                                    else 
+                                                                    (match s4 with
+                                                                    | [] ->
+                                                                    None
+                                                                    | a2::s5 ->
+                                                                    (* If this appears, you're using Ascii internals. Please don't *)
+ (fun f c ->
+  let n = Char.code c in
+  let h i = (n land (1 lsl i)) <> 0 in
+  f (h 0) (h 1) (h 2) (h 3) (h 4) (h 5) (h 6) (h 7))
+                                                                    (fun b23 b24 b25 b26 b27 b28 b29 b30 ->
+                                                                    if b23
+                                                                    then None
+                                                                    else 
+                                                                    if b24
+                                                                    then None
+                                                                    else 
+                                                                    if b25
+                                                                    then None
+                                                                    else 
+                                                                    if b26
+                                                                    then 
+                                                                    if b27
+                                                                    then None
+                                                                    else 
+                                                                    if b28
+                                                                    then 
+                                                                    if b29
+                                                                    then 
+                                                                    if b30
+                                                                    then None
+                                                                    else 
+                                                                    (match s5 with
+                                                                    | [] ->
+                                                                    None
+                                                                    | a3::s6 ->
+                                                                    (* If this appears, you're using Ascii internals. Please don't *)
+ (fun f c ->
+  let n = Char.code c in
+  let h i = (n land (1 lsl i)) <> 0 in
+  f (h 0) (h 1) (h 2) (h 3) (h 4) (h 5) (h 6) (h 7))
+                                                                    (fun b31 b32 b33 b34 b35 b36 b37 b38 ->
+                                                                    if b31
+                                                                    then 
+                                                                    if b32
+                                                                    then 
+                                                                    if b33
+                                                                    then 
+                                                                    if b34
+                                                                    then 
+                                                                    if b35
+                                                                    then None
+                                                                    else 
+                                                                    if b36
+                                                                    then 
+                                                                    if b37
+                                                                    then 
+                                                                    if b38
+                                                                    then None
+                                                                    else 
+                                                                    (match s6 with
+                                                                    | [] ->
+                                                                    None
+                                                                    | a4::s7 ->
+                                                                    (* If this appears, you're using Ascii internals. Please don't *)
+ (fun f c ->
+  let n = Char.code c in
+  let h i = (n land (1 lsl i)) <> 0 in
+  f (h 0) (h 1) (h 2) (h 3) (h 4) (h 5) (h 6) (h 7))
+                                                                    (fun b39 b40 b41 b42 b43 b44 b45 b46 ->
+                                                                    if b39
+                                                                    then None
+                                                                    else 
+                                                                    if b40
+                                                                    then None
+                                                                    else 
+                                                                    if b41
+                                                                    then 
+                                                                    if b42
+                                                                    then None
+                                                                    else 
+                                                                    if b43
+                                                                    then None
+                                                                    else 
+                                                                    if b44
+                                                                    then 
+                                                                    if b45
+                                                                    then 
+                                                                    if b46
+                                                                    then None
+                                                                    else 
+                                                                    (match s7 with
+                                                                    | [] ->
+                                                                    (match l0 with
+                                                                    | [] ->
+                                                                    None
+                                                                    | s8 :: l1 ->
+                                                                    (match s8 with
+                                                                    | SAtom r ->
+                                                                    (match l1 with
+                                                                    | [] ->
+                                                                    Some
+                                                                    (StyleMethod
+                                                                    r)
+                                                                    | _ :: _ ->
+                                                                    None)
+                                                                    | SList _ ->
+                                                                    None))
+                                                                    | _::_ ->
+                                                                    None)
+                                                                    else None
+                                                                    else None
+                                                                    else None)
+                                                                    a4)
+                                                                    else None
+                                                                    else None
+                                                                    else None
+                                                                    else None
+                                                                    else None
+                                                                    else None)
+                                                                    a3)
+                                                                    else None
+                                                                    else None
+                                                                    else None)
+                                                                    a2)
+                                                                    else None
+                                                                    else None
+                                                                    else None
+                                                                    else None)
+                                                                    a1)
+                                                                    else None
+                                                                    else None
+                                                                    else None
+                                                          else None)
+                                                          a0)
+                                           else None
+                                      else None
+                            else None
+                       else None
+             else if b0
+                  then if b1
+                       then if b2
+                            then None
+                            else if b3
+                                 then None
+                                 else if b4
+                                      then if b5
+                                           then if b6
+                                                then None
+                                                else (match s2 with
+                                                      | [] -> None
+                                                      | a0::s3 ->
+                                                        (* If this appears, you're using Ascii internals. Please don't *)
+ (fun f c ->
+  let n = Char.code c in
+  let h i = (n land (1 lsl i)) <> 0 in
+  f (h 0) (h 1) (h 2) (h 3) (h 4) (h 5) (h 6) (h 7))
+                                                          (fun b7 b8 b9 b10 b11 b12 b13 b14 ->
+                                                          if b7
+                                                          then if b8
+                                                               then None
+                                                               else if b9
+                                                                    then 
+                                                                    if b10
+                                                                    then None
+                                                                    else 
+                                                                    if b11
+                                                                    then 
+                                                                    if b12
+                                                                    then 
+                                                                    if b13
+                                                                    then 
+                                                                    if b14
+                                                                    then None
+                                                                    else 
+                                                                    (match s3 with
+                                                                    | [] ->
+                                                                    None
+                                                                    | a1::s4 ->
+                                                                    (* If this appears, you're using Ascii internals. Please don't *)
+ (fun f c ->
+  let n = Char.code c in
+  let h i = (n land (1 lsl i)) <> 0 in
+  f (h 0) (h 1) (h 2) (h 3) (h 4) (h 5) (h 6) (h 7))
+                                                                    (fun b15 b16 b17 b18 b19 b20 b21 b22 ->
+                                                                    if b15
+                                                                    then None
+                                                                    else 
+                                                                    if b16
+                                                                    then 
+                                                                    if b17
+                                                                    then 
+                                                                    if b18
+                                                                    then 
+                                                                    if b19
+                                                                    then None
+                                                                    else 
+                                                                    if b20
+                                                                    then 
+                                                                    if b21
+                                                                    then 
+                                                                    if b22
+                                                                    then None
+                                                                    else 
+                                                                    (match s4 with
+                                                                    | [] ->
+                                                                    None
+                                                                    | a2::s5 ->
+                                                                    (* If this appears, you're using Ascii internals. Please don't *)
+ (fun f c ->
+  let n = Char.code c in
+  let h i = (n land (1 lsl i)) <> 0 in
+  f (h 0) (h 1) (h 2) (h 3) (h 4) (h 5) (h 6) (h 7))
+                                                                    (fun b23 b24 b25 b26 b27 b28 b29 b30 ->
+                                                                    if b23
+                                                                    then 
+                                                                    if b24
+                                                                    then 
+                                                                    if b25
+                                                                    then None
+                                                                    else 
+                                                                    if b26
+                                                                    then None
+                                                                    else 
+                                                                    if b27
+                                                                    then None
+                                                                    else 
+                                                                    if b28
+                                                                    then 
+                                                                    if b29
+                                                                    then 
+                                                                    if b30
+                                                                    then None
+                                                                    else 
+                                                                    (match s5 with
+                                                                    | [] ->
+                                                                    (match l0 with
+                                                                    | [] ->
+                                                                    Some
+                                                                    StyleFunc
+                                                                    | _ :: _ ->
+                                                                    None)
+                                                                    | _::_ ->
+                                                                    None)
+                                                                    else None
+                                                                    else None
+                                                                    else None
+                                                                    else None)
+                                                                    a2)
+                                                                    else None
+                                                                    else None
+                                                                    else None
+                                                                    else None
+                                                                    else None)
+                                                                    a1)
+                                                                    else None
+                                                                    else None
+                                                                    else None
+                                                                    else None
+                                                          else None)
+                                                          a0)
+                                           else None
+                                      else None
+                       else None
+                  else None)
+             a)
+      | SList _ -> None))
+
+(** val d_field : sexp -> ((char list * char list) * char list) option **)
+
+let d_field = function
+| SAtom _ -> None
+| SList l ->
+  (match l with
+   | [] -> None
+   | s0 :: l0 ->
+     (match s0 with
+      | SAtom t ->
+        (match l0 with
+         | [] -> None
+         | s1 :: l1 ->
+           (match s1 with
+            | SAtom n0 ->
+              (match l1 with
+               | [] -> None
+               | s2 :: l2 ->
+                 (match s2 with
+                  | SAtom i ->
+                    (match l2 with
+                     | [] -> Some ((t, n0), i)
+                     | _ :: _ -> None)
+                  | SList _ -> None))
+            | SList _ -> None))
+      | SList _ -> None))
+
+(** val s_emitted : emitted -> sexp **)
+
+let s_emitted e =
+  SList
+    ((s_pair e.em_decl) :: ((s_strs e.em_includes) :: ((s_strs e.em_libs) :: (
+    (s_strs e.em_block) :: ((SList
+    (map s_pair e.em_class_vars)) :: ((s_strs e.em_book) :: ((SAtom
+    e.em_result) :: ((s_nat e.em_counter) :: ((s_strs (render_call e)) :: [])))))))))
+
+(** val run_call : sexp -> sexp **)
+
+let run_call = function
+| SAtom _ -> bad_input
+| SList l ->
+  (match l with
+   | [] -> bad_input
+   | s0 :: l0 ->
+     (match s0 with
+      | SAtom which ->
+        (match l0 with
+         | [] -> bad_input
+         | sp :: l1 ->
+           (match l1 with
+            | [] -> bad_input
+            | st :: l2 ->
+              (match l2 with
+               | [] -> bad_input
+               | s1 :: l3 ->
+                 (match s1 with
+                  | SAtom recv ->
+                    (match l3 with
+                     | [] -> bad_input
+                     | reps :: l4 ->
+                       (match l4 with
+                        | [] -> bad_input
+                        | cnt :: l5 ->
+                          (match l5 with
+                           | [] -> bad_input
+                           | incs :: l6 ->
+                             (match l6 with
+                              | [] -> bad_input
+                              | libs :: l7 ->
+                                (match l7 with
+                                 | [] -> bad_input
+                                 | flds :: l8 ->
+                                   (match l8 with
+                                    | [] -> bad_input
+                                    | llibs :: l9 ->
+                                      (match l9 with
+                                       | [] ->
+                                         (match d_spec sp with
+                                          | Some sp' ->
+                                            (match d_style st with
+                                             | Some st' ->
+                                               (match d_strs reps with
+                                                | Some reps' ->
+                                                  (match d_nat cnt with
+                                                   | Some cnt' ->
+                                                     (match d_strs incs with
+                                                      | Some incs' ->
+                                                        (match d_strs libs with
+                                                         | Some libs' ->
+                                                           (match match flds with
+                                                                  | SAtom _ ->
+                                                                    None
+                                                                  | SList l10 ->
+                                                                    d_list
+                                                                    d_field
+                                                                    l10 with
+                                                            | Some flds' ->
+                                                              (match 
+                                                               d_strs llibs with
+                                                               | Some llibs' ->
+                                                                 (match 
+                                                                  build_value
+                                                                    sp' st'
+                                                                    (length
+                                                                    reps') with
+                                                                  | OK cv ->
+                                                                    let cv' =
+                                                                    { cv_includes =
+                                                                    cv.cv_includes;
+                                                                    cv_libs =
+                                                                    llibs';
+                                                                    cv_args =
+                                                                    cv.cv_args;
+                                                                    cv_code =
+                                                                    cv.cv_code;
+                                                                    cv_result =
+                                                                    cv.cv_result;
+                                                                    cv_rname =
+                                                                    cv.cv_rname;
+                                                                    cv_rtype =
+                                                                    cv.cv_rtype;
+                                                                    cv_instance =
+                                                                    cv.cv_instance;
+                                                                    cv_fields =
+                                                                    flds' }
+                                                                    in
+                                                                    s_result
+                                                                    s_emitted
+                                                                    (if 
+                                                                    eqb0
+                                                                    which
+                                                                    ('s'::('e'::('q'::[])))
+                                                                    then 
+                                                                    process_node_seq
+                                                                    cv' recv
+                                                                    reps'
+                                                                    cnt'
+                                                                    incs'
+                                                                    libs'
+                                                                    else 
+                                                                    process_node
+                                                                    cv' recv
+                                                                    reps'
+                                                                    cnt'
+                                                                    incs'
+                                                                    libs')
+                                                                  | Error e ->
+                                                                    s_err e)
+                                                               | None ->
+                                                                 bad_input)
+                                                            | None ->
+                                                              bad_input)
+                                                         | None -> bad_input)
+                                                      | None -> bad_input)
+                                                   | None -> bad_input)
+                                                | None -> bad_input)
+                                             | None -> bad_input)
+                                          | None -> bad_input)
+                                       | _ :: _ -> bad_input)))))))
+                  | SList _ -> bad_input))))
+      | SList _ -> bad_input))
+
+(** val d_qexpr : nat -> sexp -> qexpr option **)
+
+let rec d_qexpr fuel s =
+  match fuel with
+  | O -> None
+  | S f ->
+    let go =
+      let rec go = function
+      | [] -> Some []
+      | x :: r ->
+        (match d_qexpr f x with
+         | Some a -> (match go r with
+                      | Some b -> Some (a :: b)
+                      | None -> None)
+         | None -> None)
+      in go
+    in
+    (match s with
+     | SAtom _ -> None
+     | SList l ->
+       (match l with
+        | [] -> None
+        | s0 :: l0 ->
+          (match s0 with
+           | SAtom s1 ->
+             (match s1 with
+              | [] -> None
+              | a0::s2 ->
+                (* If this appears, you're using Ascii internals. Please don't *)
+ (fun f c ->
+  let n = Char.code c in
+  let h i = (n land (1 lsl i)) <> 0 in
+  f (h 0) (h 1) (h 2) (h 3) (h 4) (h 5) (h 6) (h 7))
+                  (fun b b0 b1 b2 b3 b4 b5 b6 ->
+                  if b
+                  then if b0
+                       then if b1
+                            then None
+                            else if b2
+                                 then None
+                                 else if b3
+                                      then None
+                                      else if b4
+                                           then if b5
+                                                then if b6
+                                                     then None
+                                                     else (match s2 with
+                                                           | [] -> None
+                                                           | a::s3 ->
+                                                             (* If this appears, you're using Ascii internals. Please don't *)
+ (fun f c ->
+  let n = Char.code c in
+  let h i = (n land (1 lsl i)) <> 0 in
+  f (h 0) (h 1) (h 2) (h 3) (h 4) (h 5) (h 6) (h 7))
+                                                               (fun b7 b8 b9 b10 b11 b12 b13 b14 ->
+                                                               if b7
+                                                               then if b8
+                                                                    then None
+                                                                    else 
+                                                                    if b9
+                                                                    then None
+                                                                    else 
+                                                                    if b10
+                                                                    then None
+                                                                    else 
+                                                                    if b11
+                                                                    then None
+                                                                    else 
+                                                                    if b12
+                                                                    then 
+                                                                    if b13
+                                                                    then 
+                                                                    if b14
+                                                                    then None
+                                                                    else 
+                                                                    (match s3 with
+                                                                    | [] ->
+                                                                    None
+                                                                    | a1::s4 ->
+                                                                    (* If this appears, you're using Ascii internals. Please don't *)
+ (fun f c ->
+  let n = Char.code c in
+  let h i = (n land (1 lsl i)) <> 0 in
+  f (h 0) (h 1) (h 2) (h 3) (h 4) (h 5) (h 6) (h 7))
+                                                                    (fun b15 b16 b17 b18 b19 b20 b21 b22 ->
+                                                                    if b15
+                                                                    then None
+                                                                    else 
+                                                                    if b16
+                                                                    then None
+                                                                    else 
+                                                                    if b17
+                                                                    then 
+                                                                    if b18
+                                                                    then 
+                                                                    if b19
+                                                                    then None
+                                                                    else 
+                                                                    if b20
+                                                                    then 
+                                                                    if b21
+                                                                    then 
+                                                                    if b22
+                                                                    then None
+                                                                    else 
+                                                                    (match s4 with
+                                                                    | [] ->
+                                                                    None
+                                                                    | a2::s5 ->
+                                                                    (* If this appears, you're using Ascii internals. Please don't *)
+ (fun f c ->
+  let n = Char.code c in
+  let h i = (n land (1 lsl i)) <> 0 in
+  f (h 0) (h 1) (h 2) (h 3) (h 4) (h 5) (h 6) (h 7))
+                                                                    (fun b23 b24 b25 b26 b27 b28 b29 b30 ->
+                                                                    if b23
+                                                                    then None
+                                                                    else 
+                                                                    if b24
+                                                                    then None
+                                                                    else 
+                                                                    if b25
+                                                                    then 
+                                                                    if b26
+                                                                    then 
+                                                                    if b27
+                                                                    then None
+                                                                    else 
+                                                                    if b28
+                                                                    then 
+                                                                    if b29
+                                                                    then 
+                                                                    if b30
+                                                                    then None
+                                                                    else 
+                                                                    (match s5 with
+                                                                    | [] ->
+                                                                    (match l0 with
+                                                                    | [] ->
+                                                                    None
+                                                                    | fn :: l1 ->
+                                                                    (match l1 with
+                                                                    | [] ->
+                                                                    None
+                                                                    | s6 :: l2 ->
+                                                                    (match s6 with
+                                                                    | SAtom _ ->
+                                                                    None
+                                                                    | SList args ->
+                                                                    (match l2 with
+                                                                    | [] ->
+                                                                    (match 
+                                                                    d_qexpr f
+                                                                    fn with
+                                                                    | Some a3 ->
+                                                                    (match 
+                                                                    go args with
+                                                                    | Some b31 ->
+                                                                    Some
+                                                                    (QCall
+                                                                    (a3, b31))
+                                                                    | None ->
+                                                                    None)
+                                                                    | None ->
+                                                                    None)
+                                                                    | _ :: _ ->
+                                                                    None))))
+                                                                    | _::_ ->
+                                                                    None)
+                                                                    else None
+                                                                    else None
+                                                                    else None
+                                                                    else None)
+                                                                    a2)
+                                                                    else None
+                                                                    else None
+                                                                    else None
+                                                                    else None)
+                                                                    a1)
+                                                                    else None
+                                                                    else None
+                                                               else None)
+                                                               a)
+                                                else None
+                                           else None
+                       else if b1
+                            then None
+                            else if b2
+                                 then None
+                                 else if b3
+                                      then None
+                                      else if b4
+                                           then if b5
+                                                then if b6
+                                                     then None
+                                                     else (match s2 with
+                                                           | [] -> None
+                                                           | a1::s3 ->
+                                                             (* If this appears, you're using Ascii internals. Please don't *)
+ (fun f c ->
+  let n = Char.code c in
+  let h i = (n land (1 lsl i)) <> 0 in
+  f (h 0) (h 1) (h 2) (h 3) (h 4) (h 5) (h 6) (h 7))
+                                                               (fun b7 b8 b9 b10 b11 b12 b13 b14 ->
+                                                               if b7
+                                                               then None
+                                                               else if b8
+                                                                    then None
+                                                                    else 
+                                                                    if b9
+                                                                    then 
+                                                                    if b10
+                                                                    then None
+                                                                    else 
+                                                                    if b11
+                                                                    then 
+                                                                    if b12
+                                                                    then 
+                                                                    if b13
+                                                                    then 
+                                                                    if b14
+                                                                    then None
+                                                                    else 
+                                                                    (match s3 with
+                                                                    | [] ->
+                                                                    None
+                                                                    | a2::s4 ->
+                                                                    (* If this appears, you're using Ascii internals. Please don't *)
+ (fun f c ->
+  let n = Char.code c in
+  let h i = (n land (1 lsl i)) <> 0 in
+  f (h 0) (h 1) (h 2) (h 3) (h 4) (h 5) (h 6) (h 7))
+                                                                    (fun b15 b16 b17 b18 b19 b20 b21 b22 ->
+                                                                    if b15
+                                                                    then None
+                                                                    else 
+                                                                    if b16
+                                                                    then None
+                                                                    else 
+                                                                    if b17
+                                                                    then 
+                                                                    if b18
+                                                                    then None
+                                                                    else 
+                                                                    if b19
+                                                                    then 
+                                                                    if b20
+                                                                    then 
+                                                                    if b21
+                                                                    then 
+                                                                    if b22
+                                                                    then None
+                                                                    else 
+                                                                    (match s4 with
+                                                                    | [] ->
+                                                                    None
+                                                                    | a3::s5 ->
+                                                                    (* If this appears, you're using Ascii internals. Please don't *)
+ (fun f c ->
+  let n = Char.code c in
+  let h i = (n land (1 lsl i)) <> 0 in
+  f (h 0) (h 1) (h 2) (h 3) (h 4) (h 5) (h 6) (h 7))
+                                                                    (fun b23 b24 b25 b26 b27 b28 b29 b30 ->
+                                                                    if b23
+                                                                    then None
+                                                                    else 
+                                                                    if b24
+                                                                    then 
+                                                                    if b25
+                                                                    then None
+                                                                    else 
+                                                                    if b26
+                                                                    then None
+                                                                    else 
+                                                                    if b27
+                                                                    then 
+                                                                    if b28
+                                                                    then 
+                                                                    if b29
+                                                                    then 
+                                                                    if b30
+                                                                    then None
+                                                                    else 
+                                                                    (match s5 with
+                                                                    | [] ->
+                                                                    (match l0 with
+                                                                    | [] ->
+                                                                    None
+                                                                    | e :: l1 ->
+                                                                    (match l1 with
+                                                                    | [] ->
+                                                                    None
+                                                                    | s6 :: l2 ->
+                                                                    (match s6 with
+                                                                    | SAtom a ->
+                                                                    (match l2 with
+                                                                    | [] ->
+                                                                    option_map
+                                                                    (fun v ->
+                                                                    QAttr (v,
+                                                                    a))
+                                                                    (d_qexpr
+                                                                    f e)
+                                                                    | _ :: _ ->
+                                                                    None)
+                                                                    | SList _ ->
+                                                                    None)))
+                                                                    | _::_ ->
+                                                                    None)
+                                                                    else None
+                                                                    else None
+                                                                    else None
+                                                                    else None)
+                                                                    a3)
+                                                                    else None
+                                                                    else None
+                                                                    else None
+                                                                    else None)
+                                                                    a2)
+                                                                    else None
+                                                                    else None
+                                                                    else None
+                                                                    else None)
+                                                               a1)
+                                                else None
+                                           else None
+                  else if b0
+                       then if b1
+                            then if b2
+                                 then if b3
+                                      then None
+                                      else if b4
+                                           then if b5
+                                                then if b6
+                                                     then None
+                                                     else (match s2 with
+                                                           | [] -> None
+                                                           | a::s3 ->
+                                                             (* If this appears, you're using Ascii internals. Please don't *)
+ (fun f c ->
+  let n = Char.code c in
+  let h i = (n land (1 lsl i)) <> 0 in
+  f (h 0) (h 1) (h 2) (h 3) (h 4) (h 5) (h 6) (h 7))
+                                                               (fun b7 b8 b9 b10 b11 b12 b13 b14 ->
+                                                               if b7
+                                                               then if b8
+                                                                    then 
+                                                                    if b9
+                                                                    then 
+                                                                    if b10
+                                                                    then 
+                                                                    if b11
+                                                                    then None
+                                                                    else 
+                                                                    if b12
+                                                                    then 
+                                                                    if b13
+                                                                    then 
+                                                                    if b14
+                                                                    then None
+                                                                    else 
+                                                                    (match s3 with
+                                                                    | [] ->
+                                                                    None
+                                                                    | a1::s4 ->
+                                                                    (* If this appears, you're using Ascii internals. Please don't *)
+ (fun f c ->
+  let n = Char.code c in
+  let h i = (n land (1 lsl i)) <> 0 in
+  f (h 0) (h 1) (h 2) (h 3) (h 4) (h 5) (h 6) (h 7))
+                                                                    (fun b15 b16 b17 b18 b19 b20 b21 b22 ->
+                                                                    if b15
+                                                                    then None
+                                                                    else 
+                                                                    if b16
+                                                                    then None
+                                                                    else 
+                                                                    if b17
+                                                                    then 
+                                                                    if b18
+                                                                    then None
+                                                                    else 
+                                                                    if b19
+                                                                    then None
+                                                                    else 
+                                                                    if b20
+                                                                    then 
+                                                                    if b21
+                                                                    then 
+                                                                    if b22
+                                                                    then None
+                                                                    else 
+                                                                    (match s4 with
+                                                                    | [] ->
+                                                                    None
+                                                                    | a2::s5 ->
+                                                                    (* If this appears, you're using Ascii internals. Please don't *)
+ (fun f c ->
+  let n = Char.code c in
+  let h i = (n land (1 lsl i)) <> 0 in
+  f (h 0) (h 1) (h 2) (h 3) (h 4) (h 5) (h 6) (h 7))
+                                                                    (fun b23 b24 b25 b26 b27 b28 b29 b30 ->
+                                                                    if b23
+                                                                    then 
+                                                                    if b24
+                                                                    then None
+                                                                    else 
+                                                                    if b25
+                                                                    then 
+                                                                    if b26
+                                                                    then None
+                                                                    else 
+                                                                    if b27
+                                                                    then None
+                                                                    else 
+                                                                    if b28
+                                                                    then 
+                                                                    if b29
+                                                                    then 
+                                                                    if b30
+                                                                    then None
+                                                                    else 
+                                                                    (match s5 with
+                                                                    | [] ->
+                                                                    (match l0 with
+                                                                    | [] ->
+                                                                    None
+                                                                    | s6 :: l1 ->
+                                                                    (match s6 with
+                                                                    | SAtom t ->
+                                                                    (match l1 with
+                                                                    | [] ->
+                                                                    None
+                                                                    | s7 :: l2 ->
+                                                                    (match s7 with
+                                                                    | SAtom _ ->
+                                                                    None
+                                                                    | SList ch ->
+                                                                    (match l2 with
+                                                                    | [] ->
+                                                                    option_map
+                                                                    (fun x ->
+                                                                    QNode (t,
+                                                                    x))
+                                                                    (go ch)
+                                                                    | _ :: _ ->
+                                                                    None)))
+                                                                    | SList _ ->
+                                                                    None))
+                                                                    | _::_ ->
+                                                                    None)
+                                                                    else None
+                                                                    else None
+                                                                    else None
+                                                                    else None)
+                                                                    a2)
+                                                                    else None
+                                                                    else None
+                                                                    else None)
+                                                                    a1)
+                                                                    else None
+                                                                    else None
+                                                                    else None
+                                                                    else None
+                                                                    else 
+                                                                    if b9
+                                                                    then None
+                                                                    else 
+                                                                    if b10
+                                                                    then None
+                                                                    else 
+                                                                    if b11
+                                                                    then None
+                                                                    else 
+                                                                    if b12
+                                                                    then 
+                                                                    if b13
+                                                                    then 
+                                                                    if b14
+                                                                    then None
+                                                                    else 
+                                                                    (match s3 with
+                                                                    | [] ->
+                                                                    None
+                                                                    | a1::s4 ->
+                                                                    (* If this appears, you're using Ascii internals. Please don't *)
+ (fun f c ->
+  let n = Char.code c in
+  let h i = (n land (1 lsl i)) <> 0 in
+  f (h 0) (h 1) (h 2) (h 3) (h 4) (h 5) (h 6) (h 7))
+                                                                    (fun b15 b16 b17 b18 b19 b20 b21 b22 ->
+                                                                    if b15
+                                                                    then 
+                                                                    if b16
+                                                                    then None
+                                                                    else 
+                                                                    if b17
+                                                                    then 
+                                                                    if b18
+                                                                    then 
+                                                                    if b19
+                                                                    then None
+                                                                    else 
+                                                                    if b20
+                                                                    then 
+                                                                    if b21
+                                                                    then 
+                                                                    if b22
+                                                                    then None
+                                                                    else 
+                                                                    (match s4 with
+                                                                    | [] ->
+                                                                    None
+                                                                    | a2::s5 ->
+                                                                    (* If this appears, you're using Ascii internals. Please don't *)
+ (fun f c ->
+  let n = Char.code c in
+  let h i = (n land (1 lsl i)) <> 0 in
+  f (h 0) (h 1) (h 2) (h 3) (h 4) (h 5) (h 6) (h 7))
+                                                                    (fun b23 b24 b25 b26 b27 b28 b29 b30 ->
+                                                                    if b23
+                                                                    then 
+                                                                    if b24
+                                                                    then None
+                                                                    else 
+                                                                    if b25
+                                                                    then 
+                                                                    if b26
+                                                                    then None
+                                                                    else 
+                                                                    if b27
+                                                                    then None
+                                                                    else 
+                                                                    if b28
+                                                                    then 
+                                                                    if b29
+                                                                    then 
+                                                                    if b30
+                                                                    then None
+                                                                    else 
+                                                                    (match s5 with
+                                                                    | [] ->
+                                                                    (match l0 with
+                                                                    | [] ->
+                                                                    None
+                                                                    | s6 :: l1 ->
+                                                                    (match s6 with
+                                                                    | SAtom i ->
+                                                                    (match l1 with
+                                                                    | [] ->
+                                                                    Some
+                                                                    (QName i)
+                                                                    | _ :: _ ->
+                                                                    None)
+                                                                    | SList _ ->
+                                                                    None))
+                                                                    | _::_ ->
+                                                                    None)
+                                                                    else None
+                                                                    else None
+                                                                    else None
+                                                                    else None)
+                                                                    a2)
+                                                                    else None
+                                                                    else None
+                                                                    else None
+                                                                    else None
+                                                                    else None)
+                                                                    a1)
+                                                                    else None
+                                                                    else None
+                                                               else None)
+                                                               a)
+                                                else None
+                                           else None
+                                 else None
+                            else None
+                       else if b1
+                            then if b2
+                                 then if b3
+                                      then None
+                                      else if b4
+                                           then if b5
+                                                then if b6
+                                                     then None
+                                                     else (match s2 with
+                                                           | [] -> None
+                                                           | a::s3 ->
+                                                             (* If this appears, you're using Ascii internals. Please don't *)
+ (fun f c ->
+  let n = Char.code c in
+  let h i = (n land (1 lsl i)) <> 0 in
+  f (h 0) (h 1) (h 2) (h 3) (h 4) (h 5) (h 6) (h 7))
+                                                               (fun b7 b8 b9 b10 b11 b12 b13 b14 ->
+                                                               if b7
+                                                               then if b8
+                                                                    then None
+                                                                    else 
+                                                                    if b9
+                                                                    then 
+                                                                    if b10
+                                                                    then None
+                                                                    else 
+                                                                    if b11
+                                                                    then None
+                                                                    else 
+                                                                    if b12
+                                                                    then 
+                                                                    if b13
+                                                                    then 
+                                                                    if b14
+                                                                    then None
+                                                                    else 
+                                                                    (match s3 with
+                                                                    | [] ->
+                                                                    None
+                                                                    | a1::s4 ->
+                                                                    (* If this appears, you're using Ascii internals. Please don't *)
+ (fun f c ->
+  let n = Char.code c in
+  let h i = (n land (1 lsl i)) <> 0 in
+  f (h 0) (h 1) (h 2) (h 3) (h 4) (h 5) (h 6) (h 7))
+                                                                    (fun b15 b16 b17 b18 b19 b20 b21 b22 ->
+                                                                    if b15
+                                                                    then 
+                                                                    if b16
+                                                                    then None
+                                                                    else 
+                                                                    if b17
+                                                                    then None
+                                                                    else 
+                                                                    if b18
+                                                                    then None
+                                                                    else 
+                                                                    if b19
+                                                                    then None
+                                                                    else 
+                                                                    if b20
+                                                                    then 
+                                                                    if b21
+                                                                    then 
+                                                                    if b22
+                                                                    then None
+                                                                    else 
+                                                                    (match s4 with
+                                                                    | [] ->
+                                                                    None
+                                                                    | a2::s5 ->
+                                                                    (* If this appears, you're using Ascii internals. Please don't *)
+ (fun f c ->
+  let n = Char.code c in
+  let h i = (n land (1 lsl i)) <> 0 in
+  f (h 0) (h 1) (h 2) (h 3) (h 4) (h 5) (h 6) (h 7))
+                                                                    (fun b23 b24 b25 b26 b27 b28 b29 b30 ->
+                                                                    if b23
+                                                                    then None
+                                                                    else 
+                                                                    if b24
+                                                                    then 
+                                                                    if b25
+                                                                    then 
+                                                                    if b26
+                                                                    then None
+                                                                    else 
+                                                                    if b27
+                                                                    then None
+                                                                    else 
+                                                                    if b28
+                                                                    then 
+                                                                    if b29
+                                                                    then 
+                                                                    if b30
+                                                                    then None
+                                                                    else 
+                                                                    (match s5 with
+                                                                    | [] ->
+                                                                    (match l0 with
+                                                                    | [] ->
+                                                                    None
+                                                                    | s6 :: l1 ->
+                                                                    (match s6 with
+                                                                    | SAtom t ->
+                                                                    (match l1 with
+                                                                    | [] ->
+                                                                    Some
+                                                                    (QLeaf t)
+                                                                    | _ :: _ ->
+                                                                    None)
+                                                                    | SList _ ->
+                                                                    None))
+                                                                    | _::_ ->
+                                                                    None)
+                                                                    else None
+                                                                    else None
+                                                                    else None
+                                                                    else None)
+                                                                    a2)
+                                                                    else None
+                                                                    else None
+                                                                    else None)
+                                                                    a1)
+                                                                    else None
+                                                                    else None
+                                                                    else None
+                                                               else None)
+                                                               a)
+                                                else None
+                                           else None
+                                 else None
+                            else None)
+                  a0)
+           | SList _ -> None)))
+
+(** val s_qexpr : qexpr -> sexp **)
+
+let rec s_qexpr = function
+| QName i ->
+  SList ((SAtom ('n'::('a'::('m'::('e'::[]))))) :: ((SAtom i) :: []))
+| QLeaf t ->
+  SList ((SAtom ('l'::('e'::('a'::('f'::[]))))) :: ((SAtom t) :: []))
+| QAttr (v, a) ->
+  SList ((SAtom ('a'::('t'::('t'::('r'::[]))))) :: ((s_qexpr v) :: ((SAtom
+    a) :: [])))
+| QCall (f, args) ->
+  SList ((SAtom ('c'::('a'::('l'::('l'::[]))))) :: ((s_qexpr f) :: ((SList
+    (map s_qexpr args)) :: [])))
+| QCpp (cv, args) ->
+  SList ((SAtom ('c'::('p'::('p'::[])))) :: ((SAtom
+    cv.cv_result) :: ((match cv.cv_instance with
+                       | Some p ->
+                         let (mo, r) = p in
+                         SList ((SAtom mo) :: ((SAtom r) :: []))
+                       | None -> SList []) :: ((SList
+    (map s_qexpr args)) :: []))))
+| QNode (t, ch) ->
+  SList ((SAtom ('n'::('o'::('d'::('e'::[]))))) :: ((SAtom t) :: ((SList
+    (map s_qexpr ch)) :: [])))
+
+(** val sexp_depth : sexp -> nat **)
+
+let rec sexp_depth = function
+| SAtom _ -> S O
+| SList l -> S (fold_right (fun x acc -> Nat.max (sexp_depth x) acc) O l)
+
+(** val d_tbl_entry : sexp -> (char list * cpp_spec) option **)
+
+let d_tbl_entry = function
+| SAtom _ -> None
+| SList l ->
+  (match l with
+   | [] -> None
+   | s0 :: l0 ->
+     (match s0 with
+      | SAtom n0 ->
+        (match l0 with
+         | [] -> None
+         | sp :: l1 ->
+           (match l1 with
+            | [] -> option_map (fun x -> (n0, x)) (d_spec sp)
+            | _ :: _ -> None))
+      | SList _ -> None))
+
+(** val run_finder : sexp -> sexp **)
+
+let run_finder = function
+| SAtom _ -> bad_input
+| SList l ->
+  (match l with
+   | [] -> bad_input
+   | s0 :: l0 ->
+     (match s0 with
+      | SAtom _ -> bad_input
+      | SList tbl ->
+        (match l0 with
+         | [] -> bad_input
+         | e :: l1 ->
+           (match l1 with
+            | [] ->
+              (match d_list d_tbl_entry tbl with
+               | Some t ->
+                 (match d_qexpr (S (sexp_depth e)) e with
+                  | Some q -> s_result s_qexpr (finder t q)
+                  | None -> bad_input)
+               | None -> bad_input)
+            | _ :: _ -> bad_input))))
 
 (** val dispatch : char list -> sexp -> sexp **)
 
@@ -924,6 +4074,27 @@ let dispatch cmd arg =
   else if eqb0 cmd
             ('c'::('1'::('2'::('.'::('a'::('u'::('d'::('i'::('t'::[])))))))))
        then audit math_env documented
-       else s_tag
-              ('u'::('n'::('k'::('n'::('o'::('w'::('n'::('-'::('c'::('o'::('m'::('m'::('a'::('n'::('d'::[])))))))))))))))
-              ((SAtom cmd) :: [])
+       else if eqb0 cmd
+                 ('c'::('1'::('1'::('.'::('r'::('e'::('s'::('u'::('b'::[])))))))))
+            then run_resub arg
+            else if eqb0 cmd
+                      ('c'::('1'::('1'::('.'::('s'::('u'::('b'::('s'::('t'::[])))))))))
+                 then run_subst arg
+                 else if eqb0 cmd
+                           ('c'::('1'::('1'::('.'::('s'::('e'::('q'::[])))))))
+                      then run_seq arg
+                      else if eqb0 cmd
+                                ('c'::('1'::('1'::('.'::('s'::('p'::('e'::('c'::[]))))))))
+                           then run_spec arg
+                           else if eqb0 cmd
+                                     ('c'::('1'::('1'::('.'::('t'::('o'::('k'::('e'::('n'::('s'::[]))))))))))
+                                then run_tokens arg
+                                else if eqb0 cmd
+                                          ('c'::('1'::('1'::('.'::('c'::('a'::('l'::('l'::[]))))))))
+                                     then run_call arg
+                                     else if eqb0 cmd
+                                               ('c'::('1'::('1'::('.'::('f'::('i'::('n'::('d'::('e'::('r'::[]))))))))))
+                                          then run_finder arg
+                                          else s_tag
+                                                 ('u'::('n'::('k'::('n'::('o'::('w'::('n'::('-'::('c'::('o'::('m'::('m'::('a'::('n'::('d'::[])))))))))))))))
+                                                 ((SAtom cmd) :: [])
